@@ -1,12 +1,16 @@
 /-
   C14 — Occlusion/mismatch filling touches only flagged pixels, fills from valid ones.
+
+  The model (`Model/Interp.lean`) is parametrised by the text of the kernels (`Variant`): with or without the
+  guards of e1d31ca ("fill only when a finite source is in sight"), raising the new bit with `+=` or with `|=`
+  (7723010).  The variant of the current source is read by the translator (`sourceVariant`); the main theorem is
+  proved for every guarded variant and instantiated at the source's (`spec_holds_source`).
 -/
 import PandoraModel.Lemmas.InterpFlags
 import PandoraModel.Lemmas.InterpScan
 import PandoraModel.Lemmas.InterpSort
 import PandoraModel.Lemmas.InterpOccl
 import PandoraModel.Lemmas.InterpCongr
-import PandoraModel.Model.InterpRepaired
 import PandoraModel.Generated.Interp
 import PandoraModel.Generated.Constants
 
@@ -20,20 +24,24 @@ theorem source_dirs :
     Generated.Interp.dirsMismatchMcCnnDoubled = dirs16
     ∧ Generated.Interp.dirsMismatchSgm = dirs8 ∧ Generated.Interp.dirsOcclusionSgm = dirs8 := by decide
 
-/-- the flag updates, the tested constants, the loop bounds and the order of the passes are those the
-    model follows -/
+/-- the flag updates the model follows, for a kernel text that raises its bits with operator `o` -/
+def expectedFlagOps (o : String) : List (String × List (String × String × Bool)) :=
+  [("interpolate_occlusion_mc_cnn",
+      [("-", "PANDORA_MSK_PIXEL_OCCLUSION", true), (o, "PANDORA_MSK_PIXEL_FILLED_OCCLUSION", true),
+       ("-", "PANDORA_MSK_PIXEL_OCCLUSION", true), (o, "PANDORA_MSK_PIXEL_FILLED_OCCLUSION", true)]),
+   ("interpolate_mismatch_mc_cnn",
+      [("-", "PANDORA_MSK_PIXEL_MISMATCH", false), (o, "PANDORA_MSK_PIXEL_FILLED_MISMATCH", false)]),
+   ("interpolate_mismatch_sgm",
+      [("-", "PANDORA_MSK_PIXEL_MISMATCH", false), (o, "PANDORA_MSK_PIXEL_OCCLUSION", false),
+       ("-", "PANDORA_MSK_PIXEL_MISMATCH", false), (o, "PANDORA_MSK_PIXEL_FILLED_MISMATCH", false)]),
+   ("interpolate_occlusion_sgm",
+      [("-", "PANDORA_MSK_PIXEL_OCCLUSION", false), (o, "PANDORA_MSK_PIXEL_FILLED_OCCLUSION", false)])]
+
+/-- the flag updates (with the raising operator read from the source), the tested constants, the loop
+    bounds and the order of the passes are those the model follows -/
 theorem source_flag_ops :
-    Generated.Interp.flagOps =
-      [("interpolate_occlusion_mc_cnn",
-          [("-", "PANDORA_MSK_PIXEL_OCCLUSION", true), ("+", "PANDORA_MSK_PIXEL_FILLED_OCCLUSION", true),
-           ("-", "PANDORA_MSK_PIXEL_OCCLUSION", true), ("+", "PANDORA_MSK_PIXEL_FILLED_OCCLUSION", true)]),
-       ("interpolate_mismatch_mc_cnn",
-          [("-", "PANDORA_MSK_PIXEL_MISMATCH", false), ("+", "PANDORA_MSK_PIXEL_FILLED_MISMATCH", false)]),
-       ("interpolate_mismatch_sgm",
-          [("-", "PANDORA_MSK_PIXEL_MISMATCH", false), ("+", "PANDORA_MSK_PIXEL_OCCLUSION", false),
-           ("-", "PANDORA_MSK_PIXEL_MISMATCH", false), ("+", "PANDORA_MSK_PIXEL_FILLED_MISMATCH", false)]),
-       ("interpolate_occlusion_sgm",
-          [("-", "PANDORA_MSK_PIXEL_OCCLUSION", false), ("+", "PANDORA_MSK_PIXEL_FILLED_OCCLUSION", false)])]
+    (Generated.Interp.raiseOp = "+" ∨ Generated.Interp.raiseOp = "|")
+    ∧ Generated.Interp.flagOps = expectedFlagOps Generated.Interp.raiseOp
     ∧ Generated.Interp.tested =
       [("interpolate_occlusion_mc_cnn",
           ["PANDORA_MSK_PIXEL_OCCLUSION", "PANDORA_MSK_PIXEL_INVALID", "PANDORA_MSK_PIXEL_INVALID"]),
@@ -58,6 +66,21 @@ theorem source_constants :
     ∧ Generated.Constants.PANDORA_MSK_PIXEL_FILLED_MISMATCH = filledMismatch
     ∧ Generated.Constants.PANDORA_MSK_PIXEL_LEFT_NODATA_OR_BORDER = leftNodataOrBorder := by decide
 
+/-- the guards of e1d31ca, as the translator prints them -/
+def expectedGuards : List (String × List String) :=
+  [("interpolate_occlusion_mc_cnn", []),
+   ("interpolate_mismatch_mc_cnn", ["np.isfinite(interp_mismatched).any()"]),
+   ("interpolate_mismatch_sgm", ["np.isfinite(valid_neighbors).any()"]),
+   ("interpolate_occlusion_sgm", ["np.sum(np.isfinite(valid_neighbors)) >= 2"])]
+
+/-- The variant of the model that reads like the source: guarded iff the accumulator starts at NaN and the
+    three guards are there; `+=` or `|=` as read. -/
+def sourceVariant : Variant :=
+  { guard := decide (Generated.Interp.accInit = "nan") && decide (Generated.Interp.guards = expectedGuards),
+    op := if Generated.Interp.raiseOp = "+" then .add else .or }
+
+/-- the source is guarded (e1d31ca is in) — the main theorem needs it -/
+theorem source_guarded : sourceVariant.guard = true := by decide
 
 /-! ### 2. Well-formed inputs, as propositions -/
 
@@ -68,21 +91,34 @@ theorem allPx_iff (a : DMap) (p : Nat → Nat → Bool) :
   · intro h r c hr hc; exact h r hr c hc
   · intro h r hr c hc; exact h r c hr hc
 
-/-- what `wf meth off a = true` says, pixel by pixel (all pixels inside the image) -/
-structure WFp (meth : Method) (off : Nat) (a : DMap) : Prop where
+/-- what `wf op meth off a = true` says, pixel by pixel (all pixels inside the image); the three "no stale
+    filled bit" facts are available for the `+=` form only -/
+structure WFp (op : RaiseOp) (meth : Method) (off : Nat) (a : DMap) : Prop where
   vf : ∀ r c, r < a.rows → c < a.cols → a.valid r c = true → ∃ q, a.disp r c = .num q
   one : ∀ r c, r < a.rows → c < a.cols → (a.flag r c).testBit 8 = true → (a.flag r c).testBit 9 = false
-  st8 : ∀ r c, r < a.rows → c < a.cols → (a.flag r c).testBit 8 = true → (a.flag r c).testBit 4 = false
-  st9 : ∀ r c, r < a.rows → c < a.cols → (a.flag r c).testBit 9 = true → (a.flag r c).testBit 5 = false
-  st9s : meth = .sgm → ∀ r c, r < a.rows → c < a.cols → (a.flag r c).testBit 9 = true → (a.flag r c).testBit 4 = false
+  st8 : op = .add → ∀ r c, r < a.rows → c < a.cols → (a.flag r c).testBit 8 = true → (a.flag r c).testBit 4 = false
+  st9 : op = .add → ∀ r c, r < a.rows → c < a.cols → (a.flag r c).testBit 9 = true → (a.flag r c).testBit 5 = false
+  st9s : op = .add → meth = .sgm → ∀ r c, r < a.rows → c < a.cols → (a.flag r c).testBit 9 = true →
+    (a.flag r c).testBit 4 = false
   bc : ∀ r c, r < a.rows → c < a.cols → (decide (off > 0) && isBorder a off r c) = true → a.flag r c = leftNodataOrBorder
 
-theorem wf_elim {meth : Method} {off : Nat} {a : DMap} (h : wf meth off a = true) : WFp meth off a := by
+theorem wf_elim {op : RaiseOp} {meth : Method} {off : Nat} {a : DMap} (h : wf op meth off a = true) :
+    WFp op meth off a := by
   unfold wf at h
   simp only [Bool.and_eq_true] at h
   obtain ⟨⟨⟨h1, h2⟩, h3⟩, h4⟩ := h
-  unfold validFinite at h1; unfold oneFlag at h2; unfold noStaleFill at h3; unfold borderClean at h4
-  rw [allPx_iff] at h1 h2 h3 h4
+  unfold validFinite at h1; unfold oneFlag at h2; unfold borderClean at h4
+  rw [allPx_iff] at h1 h2 h4
+  have hst : op = .add → ∀ r c, r < a.rows → c < a.cols →
+      ((!hasBit (a.flag r c) occlusion || !hasBit (a.flag r c) filledOcclusion)
+        && (!hasBit (a.flag r c) mismatch || !hasBit (a.flag r c) filledMismatch)
+        && (!(decide (meth = .sgm) && hasBit (a.flag r c) mismatch) || !hasBit (a.flag r c) filledOcclusion)) = true := by
+    intro hop
+    subst hop
+    have h3' : noStaleFill meth a = true := by simpa using h3
+    unfold noStaleFill at h3'
+    rw [allPx_iff] at h3'
+    exact h3'
   refine ⟨?_, ?_, ?_, ?_, ?_, ?_⟩
   · intro r c hr hc hv
     have := h1 r c hr hc
@@ -94,18 +130,18 @@ theorem wf_elim {meth : Method} {off : Nat} {a : DMap} (h : wf meth off a = true
     have := h2 r c hr hc
     rw [occlusion_pow, mismatch_pow, hasBit_two_pow, hasBit_two_pow, h8] at this
     simpa using this
-  · intro r c hr hc h8
-    have := h3 r c hr hc
+  · intro hop r c hr hc h8
+    have := hst hop r c hr hc
     simp only [occlusion_pow, mismatch_pow, filledOcclusion_pow, filledMismatch_pow, hasBit_two_pow, h8,
       Bool.and_eq_true, Bool.or_eq_true, Bool.not_eq_true', Bool.false_or, Bool.not_true] at this
     exact this.1.1
-  · intro r c hr hc h9
-    have := h3 r c hr hc
+  · intro hop r c hr hc h9
+    have := hst hop r c hr hc
     simp only [occlusion_pow, mismatch_pow, filledOcclusion_pow, filledMismatch_pow, hasBit_two_pow, h9,
       Bool.and_eq_true, Bool.or_eq_true, Bool.not_eq_true', Bool.false_or, Bool.not_true] at this
     exact this.1.2
-  · intro hm r c hr hc h9
-    have := h3 r c hr hc
+  · intro hop hm r c hr hc h9
+    have := hst hop r c hr hc
     simp only [occlusion_pow, mismatch_pow, filledOcclusion_pow, filledMismatch_pow, hasBit_two_pow, h9, hm,
       Bool.and_eq_true, Bool.or_eq_true, Bool.not_eq_true', Bool.false_or, Bool.not_true, decide_true,
       Bool.true_and] at this
@@ -114,7 +150,6 @@ theorem wf_elim {meth : Method} {off : Nat} {a : DMap} (h : wf meth off a = true
     have := h4 r c hr hc
     rw [hb] at this
     simpa using this
-
 
 /-! ### 3. "Between two valid disparities of the input map" -/
 
@@ -163,56 +198,57 @@ theorem not_valid_of_bit8 {m : DMap} {r c : Nat} (h : (m.flag r c).testBit 8 = t
 theorem not_valid_of_bit9 {m : DMap} {r c : Nat} (h : (m.flag r c).testBit 9 = true) : m.valid r c = false := by
   unfold DMap.valid; apply not_valid_of_flagged; rw [flagged_eq, h]; simp
 
-theorem occlMc_unflagged (m : DMap) (r c : Nat) (h : (m.flag r c).testBit 8 = false) :
-    (occlMc m).disp r c = m.disp r c ∧ (occlMc m).flag r c = m.flag r c := by
+theorem occlMc_unflagged (v : Variant) (m : DMap) (r c : Nat) (h : (m.flag r c).testBit 8 = false) :
+    (occlMc v m).disp r c = m.disp r c ∧ (occlMc v m).flag r c = m.flag r c := by
   have : ((m.flag r c &&& occlusion) != 0) = false := by
     have := hasBit_occlusion (m.flag r c); unfold hasBit at this; rw [this, h]
-  simp only [occlMc, occlMcPixel, this, Bool.false_eq_true, if_false, and_self]
+  simp only [occlMc, lift, occlMcPixel, this, Bool.false_eq_true, if_false, and_self]
 
-theorem occlMc_flagged (m : DMap) (r c : Nat) (hc : c < m.cols) (h : (m.flag r c).testBit 8 = true) :
-    (∀ v, sourceOcclMc m r c = some v →
-        (occlMc m).disp r c = v ∧ (occlMc m).flag r c = m.flag r c - occlusion + filledOcclusion) ∧
-    (sourceOcclMc m r c = none → (occlMc m).disp r c = m.disp r c ∧ (occlMc m).flag r c = m.flag r c) := by
+/-- mc-cnn occlusion (either operator): the nearest valid pixel on the left, otherwise on the right, gives the
+    disparity and `-= OCCLUSION`, `(+=|‖=) FILLED_OCCLUSION` are applied; without valid pixel in the row nothing changes -/
+theorem occlMc_flagged (v : Variant) (m : DMap) (r c : Nat) (hc : c < m.cols) (h : (m.flag r c).testBit 8 = true) :
+    (∀ x, sourceOcclMc m r c = some x →
+        (occlMc v m).disp r c = x ∧ (occlMc v m).flag r c = raise v.op (m.flag r c - occlusion) filledOcclusion) ∧
+    (sourceOcclMc m r c = none → (occlMc v m).disp r c = m.disp r c ∧ (occlMc v m).flag r c = m.flag r c) := by
   have h8 : ((m.flag r c &&& occlusion) != 0) = true := by
     have := hasBit_occlusion (m.flag r c); unfold hasBit at this; rw [this, h]
-  have := occlMcPixel_eq m r c hc h8 (not_valid_of_bit8 h)
-  simp only [occlMc]
+  have hcore := occlMcCore_eq m r c hc (not_valid_of_bit8 h)
+  simp only [occlMc, lift, occlMcPixel, h8, if_true]
   constructor
-  · intro v hv; rw [hv] at this; rw [this]; exact ⟨rfl, rfl⟩
-  · intro hn; rw [hn] at this; rw [this]; exact ⟨rfl, rfl⟩
+  · intro x hx; rw [hx] at hcore; rw [hcore]; simp [b2n]
+  · intro hn; rw [hn] at hcore; rw [hcore]; simp [b2n, raise_zero]
 
-theorem mismMc_unflagged (m : DMap) (r c : Nat) (h : (m.flag r c).testBit 9 = false) :
-    (mismMc m).disp r c = m.disp r c ∧ (mismMc m).flag r c = m.flag r c := by
+theorem mismMc_unflagged (v : Variant) (m : DMap) (r c : Nat) (h : (m.flag r c).testBit 9 = false) :
+    (mismMc v m).disp r c = m.disp r c ∧ (mismMc v m).flag r c = m.flag r c := by
   have : ((m.flag r c &&& mismatch) != 0) = false := by
     have := hasBit_mismatch (m.flag r c); unfold hasBit at this; rw [this, h]
-  simp only [mismMc, mismMcPixel, this, Bool.false_eq_true, if_false, and_self]
+  simp only [mismMc, lift, mismMcPixel, this, Bool.false_eq_true, if_false, and_self]
 
-theorem mismMc_flag (m : DMap) (r c : Nat) (h : (m.flag r c).testBit 9 = true) :
-    (mismMc m).flag r c = m.flag r c - mismatch + filledMismatch := by
-  have : ((m.flag r c &&& mismatch) != 0) = true := by
-    have := hasBit_mismatch (m.flag r c); unfold hasBit at this; rw [this, h]
-  simp only [mismMc, mismMcPixel, this, if_true]
-
-/-- mc-cnn mismatch, when no scan line runs to its end inside the image: the median of the first valid
-    pixels on the 16 rays -/
-theorem mismMc_disp (m : DMap) (r c : Nat) (hc : c < m.cols) (h : (m.flag r c).testBit 9 = true)
-    (hno : anyRunOff m r c = false) : (mismMc m).disp r c = median (nums (sourcesMc m r c)) := by
+/-- guarded mc-cnn mismatch: no source → untouched; otherwise the median of the sources, bit 9 → bit 5 -/
+theorem mismMcV_flagged {op : RaiseOp} (m : DMap) (r c : Nat) (hr : r < m.rows) (hc : c < m.cols)
+    (h : (m.flag r c).testBit 9 = true) :
+    (nums (sourcesMc m r c) = [] →
+      (mismMc (Variant.mk true op) m).disp r c = m.disp r c ∧ (mismMc (Variant.mk true op) m).flag r c = m.flag r c) ∧
+    (nums (sourcesMc m r c) ≠ [] →
+      (mismMc (Variant.mk true op) m).disp r c = median (nums (sourcesMc m r c))
+      ∧ (mismMc (Variant.mk true op) m).flag r c = raise op (m.flag r c - mismatch) filledMismatch) := by
   have h9 : ((m.flag r c &&& mismatch) != 0) = true := by
     have := hasBit_mismatch (m.flag r c); unfold hasBit at this; rw [this, h]
-  simp only [mismMc, mismMcPixel, h9, if_true, nanmedian]
-  congr 1
-  unfold sourcesMc
-  rw [← nums_map_getD]
-  congr 1
-  apply List.map_congr_left
-  intro d hd
-  rw [scanMc_eq m r c hc d]
-  have : runOff m r c d = false := by
-    unfold anyRunOff at hno
-    rw [List.any_eq_false] at hno
-    simpa using hno d hd
-  simp [this]
-
+  have hint : (dirs16.map fun d => scanLoop .nan m (posMc r c d) (max m.cols m.rows - 1) 1)
+      = dirs16.map fun d => (firstValid m (rayPts m (posMc r c d))).getD .nan := by
+    apply List.map_congr_left; intro d hd; exact scanMc_nan_eq m r c hr hc d hd
+  have hn : nums (dirs16.map fun d => scanLoop .nan m (posMc r c d) (max m.cols m.rows - 1) 1) = nums (sourcesMc m r c) := by
+    rw [hint, nums_map_getD]; rfl
+  simp only [mismMc, lift, mismMcPixel, h9, if_true, Bool.true_and, nanmedian]
+  rw [hn]
+  constructor
+  · intro h0; simp [h0]
+  · intro h0
+    have : (nums (sourcesMc m r c)).isEmpty = false := by
+      cases hl : nums (sourcesMc m r c) with
+      | nil => exact absurd hl h0
+      | cons x t => rfl
+    simp [this]
 
 /-! ### 5. From "what happened to the pixel" to the nine clauses -/
 
@@ -308,71 +344,37 @@ theorem pixelOK_of_outcome {meth : Method} {off : Nat} {a b : DMap} {r c : Nat}
     · simp [Clause.ok, cBorder, viewAt, hb]
 
 
-/-! ### 6. mc-cnn -/
+/-! ### 6. mc-cnn (guarded, either operator) -/
 
 theorem one_testBit8 : (leftNodataOrBorder).testBit 8 = false := by decide
 theorem one_testBit9 : (leftNodataOrBorder).testBit 9 = false := by decide
 
-section mccnn
-variable {off : Nat} {a : DMap}
+section mccnnV
+variable {op : RaiseOp} {off : Nat} {a : DMap}
 
-theorem mccnn_disp (off : Nat) (a : DMap) (r c : Nat) : (mccnn off a).disp r c = (mismMc (occlMc a)).disp r c := rfl
+theorem mccnn_disp (v : Variant) (off : Nat) (a : DMap) (r c : Nat) :
+    (mccnn v off a).disp r c = (mismMc v (occlMc v a)).disp r c := rfl
 
-theorem mccnn_flag (off : Nat) (a : DMap) (r c : Nat) :
-    (mccnn off a).flag r c =
-      if (decide (off > 0) && isBorder a off r c) = true then leftNodataOrBorder else (mismMc (occlMc a)).flag r c := rfl
+theorem mccnn_flag (v : Variant) (off : Nat) (a : DMap) (r c : Nat) :
+    (mccnn v off a).flag r c =
+      if (decide (off > 0) && isBorder a off r c) = true then leftNodataOrBorder
+      else (mismMc v (occlMc v a)).flag r c := rfl
 
-theorem not_border_of_bit {k : Nat} (hwf : WFp .mccnn off a) {r c : Nat} (hr : r < a.rows) (hc : c < a.cols)
-    (h1 : (leftNodataOrBorder).testBit k = false) (hk : (a.flag r c).testBit k = true) :
+theorem not_border_of_bit {meth : Method} {k : Nat} (hwf : WFp op meth off a) {r c : Nat} (hr : r < a.rows)
+    (hc : c < a.cols) (h1 : (leftNodataOrBorder).testBit k = false) (hk : (a.flag r c).testBit k = true) :
     (decide (off > 0) && isBorder a off r c) = false := by
   cases hb : (decide (off > 0) && isBorder a off r c)
   · rfl
   · have := hwf.bc r c hr hc hb; rw [this, h1] at hk; cases hk
 
-/-- an occlusion pixel of the input: what the first pass produced is final -/
-theorem mccnn_at_occl (hwf : WFp .mccnn off a) {r c : Nat} (hr : r < a.rows) (hc : c < a.cols)
-    (h8 : (a.flag r c).testBit 8 = true) :
-    (mccnn off a).disp r c = (occlMc a).disp r c ∧ (mccnn off a).flag r c = (occlMc a).flag r c := by
-  have h9 : (a.flag r c).testBit 9 = false := hwf.one r c hr hc h8
-  have h4 : (a.flag r c).testBit 4 = false := hwf.st8 r c hr hc h8
-  have hnb := not_border_of_bit hwf hr hc one_testBit8 h8
-  have hm1 : ((occlMc a).flag r c).testBit 9 = false := by
-    obtain ⟨hs, hn⟩ := occlMc_flagged a r c hc h8
-    cases hsrc : sourceOcclMc a r c with
-    | none => rw [(hn hsrc).2]; exact h9
-    | some v =>
-      rw [(hs v hsrc).2, fill_occl h8 h4, occlusion_pow, filledOcclusion_pow, testBit_replaceBit]; simp [h9]
-  have := mismMc_unflagged (occlMc a) r c hm1
-  rw [mccnn_disp, mccnn_flag, hnb]
-  exact ⟨this.1, by simpa using this.2⟩
-
-/-- the map between the two passes, as the specification reads it off input and output, is the map
-    the first pass produced -/
-theorem midOf_mccnn_agree (hwf : WFp .mccnn off a) : Agree (midOf .mccnn a (mccnn off a)) (occlMc a) := by
-  refine ⟨rfl, rfl, ?_, ?_⟩
-  · intro r c hr hc
-    simp only [midOf, hasBit_occlusion]
-    by_cases h8 : (a.flag r c).testBit 8 = true
-    · simp [h8, (mccnn_at_occl hwf hr hc h8).1]
-    · simp only [Bool.not_eq_true] at h8
-      simp [h8, (occlMc_unflagged a r c h8).1]
-  · intro r c hr hc
-    simp only [midOf, hasBit_occlusion]
-    by_cases h8 : (a.flag r c).testBit 8 = true
-    · simp [h8, (mccnn_at_occl hwf hr hc h8).2]
-    · simp only [Bool.not_eq_true] at h8
-      simp [h8, (occlMc_unflagged a r c h8).2]
-
-/-- a valid pixel of the map after occlusion filling carries a disparity between two valid disparities
-    of the input -/
 theorem occlMc_valid_bdd {r c : Nat} (hr : r < a.rows) (hc : c < a.cols)
-    (hv : (occlMc a).valid r c = true) {q : Rat} (hd : (occlMc a).disp r c = .num q) : Bdd a q := by
+    (hv : (occlMc (Variant.mk true op) a).valid r c = true) {q : Rat} (hd : (occlMc (Variant.mk true op) a).disp r c = .num q) : Bdd a q := by
   by_cases h8 : (a.flag r c).testBit 8 = true
-  · obtain ⟨hs, hn⟩ := occlMc_flagged a r c hc h8
+  · obtain ⟨hs, hn⟩ := occlMc_flagged (Variant.mk true op) a r c hc h8
     cases hsrc : sourceOcclMc a r c with
     | none =>
       exfalso
-      have : (occlMc a).valid r c = false := by
+      have : (occlMc (Variant.mk true op) a).valid r c = false := by
         apply not_valid_of_bit8; rw [(hn hsrc).2]; exact h8
       rw [this] at hv; cases hv
     | some v =>
@@ -380,43 +382,76 @@ theorem occlMc_valid_bdd {r c : Nat} (hr : r < a.rows) (hc : c < a.cols)
       rw [(hs v hsrc).1] at hd
       exact Bdd.self hr hj hvj (hdj.trans hd)
   · simp only [Bool.not_eq_true] at h8
-    have := occlMc_unflagged a r c h8
+    have := occlMc_unflagged (Variant.mk true op) a r c h8
     unfold DMap.valid at hv
     rw [this.2] at hv; rw [this.1] at hd
     exact Bdd.self hr hc hv hd
 
-theorem mc_sources_bdd (r c : Nat) : ∀ q ∈ nums (sourcesMc (occlMc a) r c), Bdd a q := by
+theorem mc_sources_bdd (r c : Nat) : ∀ q ∈ nums (sourcesMc (occlMc (Variant.mk true op) a) r c), Bdd a q := by
   intro q hq
   rw [mem_nums] at hq
   unfold sourcesMc at hq
   rw [List.mem_filterMap] at hq
   obtain ⟨d, _, hd⟩ := hq
   obtain ⟨r', c', hr', hc', hv, hdisp⟩ := ray_source_pixel hd
-  exact occlMc_valid_bdd (a := a) hr' hc' hv hdisp
+  exact occlMc_valid_bdd (op := op) (a := a) hr' hc' hv hdisp
 
-theorem mccnn_outcome (hwf : WFp .mccnn off a) {r c : Nat} (hr : r < a.rows) (hc : c < a.cols)
-    (hok : okAt .mccnn a (occlMc a) r c = true) : Outcome .mccnn off a (mccnn off a) r c := by
+
+theorem mccnnV_at_occl (hwf : WFp op .mccnn off a) {r c : Nat} (hr : r < a.rows) (hc : c < a.cols)
+    (h8 : (a.flag r c).testBit 8 = true) :
+    (mccnn (Variant.mk true op) off a).disp r c = (occlMc (Variant.mk true op) a).disp r c
+    ∧ (mccnn (Variant.mk true op) off a).flag r c = (occlMc (Variant.mk true op) a).flag r c := by
+  have h9 : (a.flag r c).testBit 9 = false := hwf.one r c hr hc h8
+  have h4 : op = .add → (a.flag r c).testBit 4 = false := fun h => hwf.st8 h r c hr hc h8
+  have hnb := not_border_of_bit hwf hr hc one_testBit8 h8
+  have hm1 : ((occlMc (Variant.mk true op) a).flag r c).testBit 9 = false := by
+    obtain ⟨hs, hn⟩ := occlMc_flagged (Variant.mk true op) a r c hc h8
+    cases hsrc : sourceOcclMc a r c with
+    | none => rw [(hn hsrc).2]; exact h9
+    | some v =>
+      rw [(hs v hsrc).2, upd_occl h8 h4, occlusion_pow, filledOcclusion_pow, testBit_replaceBit]; simp [h9]
+  have := mismMc_unflagged (Variant.mk true op) (occlMc (Variant.mk true op) a) r c hm1
+  rw [mccnn_disp, mccnn_flag, hnb]
+  exact ⟨this.1, by simpa using this.2⟩
+
+theorem midOf_mccnnV_agree (hwf : WFp op .mccnn off a) :
+    Agree (midOf .mccnn a (mccnn (Variant.mk true op) off a)) (occlMc (Variant.mk true op) a) := by
+  refine ⟨rfl, rfl, ?_, ?_⟩
+  · intro r c hr hc
+    simp only [midOf, hasBit_occlusion]
+    by_cases h8 : (a.flag r c).testBit 8 = true
+    · simp [h8, (mccnnV_at_occl hwf hr hc h8).1]
+    · simp only [Bool.not_eq_true] at h8
+      simp [h8, (occlMc_unflagged (Variant.mk true op) a r c h8).1]
+  · intro r c hr hc
+    simp only [midOf, hasBit_occlusion]
+    by_cases h8 : (a.flag r c).testBit 8 = true
+    · simp [h8, (mccnnV_at_occl hwf hr hc h8).2]
+    · simp only [Bool.not_eq_true] at h8
+      simp [h8, (occlMc_unflagged (Variant.mk true op) a r c h8).2]
+
+theorem mccnnV_outcome (hwf : WFp op .mccnn off a) {r c : Nat} (hr : r < a.rows) (hc : c < a.cols) :
+    Outcome .mccnn off a (mccnn (Variant.mk true op) off a) r c := by
   by_cases h8 : (a.flag r c).testBit 8 = true
-  · -- occlusion
-    have h9 : (a.flag r c).testBit 9 = false := hwf.one r c hr hc h8
-    have h4 : (a.flag r c).testBit 4 = false := hwf.st8 r c hr hc h8
+  · have h9 : (a.flag r c).testBit 9 = false := hwf.one r c hr hc h8
+    have h4 : op = .add → (a.flag r c).testBit 4 = false := fun h => hwf.st8 h r c hr hc h8
     have hnb := not_border_of_bit hwf hr hc one_testBit8 h8
     have hfl : flagged (a.flag r c) = true := by rw [flagged_eq, h8]; rfl
     have hk : kindOf .mccnn a r c = .occl := by simp [kindOf, hasBit_occlusion, h8]
-    obtain ⟨hb1, hb2⟩ := mccnn_at_occl hwf hr hc h8
-    obtain ⟨hs, hn⟩ := occlMc_flagged a r c hc h8
+    obtain ⟨hb1, hb2⟩ := mccnnV_at_occl hwf hr hc h8
+    obtain ⟨hs, hn⟩ := occlMc_flagged (Variant.mk true op) a r c hc h8
     cases hsrc : sourceOcclMc a r c with
     | none =>
-      have hg0 : (mccnn off a).flag r c = a.flag r c := by rw [hb2, (hn hsrc).2]
+      have hg0 : (mccnn (Variant.mk true op) off a).flag r c = a.flag r c := by rw [hb2, (hn hsrc).2]
       refine Outcome.unfilled hfl hnb ?_ (by rw [hk, hg0]; rfl) (by rw [hg0]; exact hfl)
       simp [sourcesOf, hk, hsrc, nums, enoughSources]
     | some v =>
       obtain ⟨j, hj, hvj, hdj⟩ := sourceOcclMc_pixel hc hsrc
       obtain ⟨q, hq⟩ := hwf.vf r j hr hj hvj
       have hvq : v = .num q := hdj.symm.trans hq
-      have hg : (mccnn off a).flag r c = replaceBit (a.flag r c) occlusion filledOcclusion := by
-        rw [hb2, (hs v hsrc).2, fill_occl h8 h4]
-      have hsrcs : sourcesOf .mccnn a (mccnn off a) r c = [q] := by
+      have hg : (mccnn (Variant.mk true op) off a).flag r c = replaceBit (a.flag r c) occlusion filledOcclusion := by
+        rw [hb2, (hs v hsrc).2, upd_occl h8 h4]
+      have hsrcs : sourcesOf .mccnn a (mccnn (Variant.mk true op) off a) r c = [q] := by
         simp [sourcesOf, hk, hsrc, hvq, nums]
       refine Outcome.filled hfl hnb (by rw [hk]; exact hg) ?_ q (by rw [hb1, (hs v hsrc).1, hvq]) ?_ ?_ ?_
       · rw [hg, flagged_eq, occlusion_pow, filledOcclusion_pow, testBit_replaceBit, testBit_replaceBit]; simp [h9]
@@ -424,160 +459,64 @@ theorem mccnn_outcome (hwf : WFp .mccnn off a) {r c : Nat} (hr : r < a.rows) (hc
       · rw [betweenValid_iff]; exact Bdd.self hr hj hvj hq
       · rw [hk, hsrcs]; simp [enoughSources]
   · simp only [Bool.not_eq_true] at h8
-    obtain ⟨ho1, ho2⟩ := occlMc_unflagged a r c h8
+    obtain ⟨ho1, ho2⟩ := occlMc_unflagged (Variant.mk true op) a r c h8
     by_cases h9 : (a.flag r c).testBit 9 = true
-    · -- mismatch
-      have h5 : (a.flag r c).testBit 5 = false := hwf.st9 r c hr hc h9
+    · have h5 : op = .add → (a.flag r c).testBit 5 = false := fun h => hwf.st9 h r c hr hc h9
       have hnb := not_border_of_bit hwf hr hc one_testBit9 h9
       have hfl : flagged (a.flag r c) = true := by rw [flagged_eq, h9]; simp
       have hk : kindOf .mccnn a r c = .mism := by simp [kindOf, hasBit_occlusion, hasBit_mismatch, h8, h9]
-      have h9' : ((occlMc a).flag r c).testBit 9 = true := by rw [ho2]; exact h9
-      simp only [okAt, hk, Bool.and_eq_true, Bool.not_eq_true'] at hok
-      have hg : (mccnn off a).flag r c = replaceBit (a.flag r c) mismatch filledMismatch := by
-        rw [mccnn_flag, hnb]; simp only [Bool.false_eq_true, if_false]
-        rw [mismMc_flag _ r c h9', ho2, fill_mism h9 h5]
-      have hsrcs : sourcesOf .mccnn a (mccnn off a) r c = nums (sourcesMc (occlMc a) r c) := by
+      have h9' : ((occlMc (Variant.mk true op) a).flag r c).testBit 9 = true := by rw [ho2]; exact h9
+      have hsrcs : sourcesOf .mccnn a (mccnn (Variant.mk true op) off a) r c = nums (sourcesMc (occlMc (Variant.mk true op) a) r c) := by
         simp only [sourcesOf, hk]
-        rw [sourcesMc_congr (midOf_mccnn_agree hwf)]
-      have hd : (mccnn off a).disp r c = median (nums (sourcesMc (occlMc a) r c)) := by
-        rw [mccnn_disp]; exact mismMc_disp _ r c hc h9' hok.1
-      have hne : nums (sourcesMc (occlMc a) r c) ≠ [] := by
-        intro h0; rw [h0] at hok; simp at hok
-      cases hmed : median (nums (sourcesMc (occlMc a) r c)) with
-      | nan => exact absurd ((median_eq_nan_iff _).mp hmed) hne
-      | num q =>
-        refine Outcome.filled hfl hnb (by rw [hk]; exact hg) ?_ q (by rw [hd, hmed]) ?_ ?_ ?_
-        · rw [hg, flagged_eq, mismatch_pow, filledMismatch_pow, testBit_replaceBit, testBit_replaceBit]; simp [h8]
-        · rw [hk, hsrcs]; simp [valueOK, hmed]
-        · rw [betweenValid_iff]; exact Bdd.median (mc_sources_bdd r c) hmed
-        · rw [hk, hsrcs]; simp only [enoughSources, decide_eq_true_eq]
-          cases hl : nums (sourcesMc (occlMc a) r c) with
-          | nil => exact absurd hl hne
-          | cons x t => simp
-    · -- neither bit
-      simp only [Bool.not_eq_true] at h9
+        rw [sourcesMc_congr (midOf_mccnnV_agree hwf)]
+      obtain ⟨hempty, hfill⟩ := mismMcV_flagged (occlMc (Variant.mk true op) a) r c hr hc h9'
+      by_cases hne : nums (sourcesMc (occlMc (Variant.mk true op) a) r c) = []
+      · have hg0 : (mccnn (Variant.mk true op) off a).flag r c = a.flag r c := by
+          rw [mccnn_flag, hnb]; simp only [Bool.false_eq_true, if_false]; rw [(hempty hne).2, ho2]
+        refine Outcome.unfilled hfl hnb ?_ (by rw [hk, hg0]; rfl) (by rw [hg0]; exact hfl)
+        rw [hk, hsrcs, hne]; simp [enoughSources]
+      · have hg : (mccnn (Variant.mk true op) off a).flag r c = replaceBit (a.flag r c) mismatch filledMismatch := by
+          rw [mccnn_flag, hnb]; simp only [Bool.false_eq_true, if_false]
+          rw [(hfill hne).2, ho2, upd_mism h9 h5]
+        have hd : (mccnn (Variant.mk true op) off a).disp r c = median (nums (sourcesMc (occlMc (Variant.mk true op) a) r c)) := by
+          rw [mccnn_disp]; exact (hfill hne).1
+        cases hmed : median (nums (sourcesMc (occlMc (Variant.mk true op) a) r c)) with
+        | nan => exact absurd ((median_eq_nan_iff _).mp hmed) hne
+        | num q =>
+          refine Outcome.filled hfl hnb (by rw [hk]; exact hg) ?_ q (by rw [hd, hmed]) ?_ ?_ ?_
+          · rw [hg, flagged_eq, mismatch_pow, filledMismatch_pow, testBit_replaceBit, testBit_replaceBit]; simp [h8]
+          · rw [hk, hsrcs]; simp [valueOK, hmed]
+          · rw [betweenValid_iff]; exact Bdd.median (mc_sources_bdd r c) hmed
+          · rw [hk, hsrcs]; simp only [enoughSources, decide_eq_true_eq]
+            cases hl : nums (sourcesMc (occlMc (Variant.mk true op) a) r c) with
+            | nil => exact absurd hl hne
+            | cons x t => simp
+    · simp only [Bool.not_eq_true] at h9
       have hfl : flagged (a.flag r c) = false := by rw [flagged_eq, h8, h9]; rfl
-      have h9' : ((occlMc a).flag r c).testBit 9 = false := by rw [ho2]; exact h9
-      obtain ⟨hm1, hm2⟩ := mismMc_unflagged (occlMc a) r c h9'
+      have h9' : ((occlMc (Variant.mk true op) a).flag r c).testBit 9 = false := by rw [ho2]; exact h9
+      obtain ⟨hm1, hm2⟩ := mismMc_unflagged (Variant.mk true op) (occlMc (Variant.mk true op) a) r c h9'
       refine Outcome.untouched hfl (by rw [mccnn_disp, hm1, ho1]) ?_ (hwf.bc r c hr hc)
       rw [mccnn_flag]
       by_cases hb : (decide (off > 0) && isBorder a off r c) = true
       · rw [if_pos hb, hwf.bc r c hr hc hb]
       · rw [if_neg hb, hm2, ho2]
 
-end mccnn
+end mccnnV
 
+/-! ### 7. sgm (guarded, either operator) -/
 
-/-! ### 7. sgm -/
+section sgmV
+variable {op : RaiseOp} {off : Nat} {a : DMap}
 
-section sgm
-variable {off : Nat} {a : DMap}
-
-theorem mismSgm_unflagged (m : DMap) (r c : Nat) (h : (m.flag r c).testBit 9 = false) :
-    (mismSgm m).disp r c = m.disp r c ∧ (mismSgm m).flag r c = m.flag r c := by
-  have : ((m.flag r c &&& mismatch) != 0) = false := by
-    have := hasBit_mismatch (m.flag r c); unfold hasBit at this; rw [this, h]
-  simp only [mismSgm, mismSgmPixel, this, Bool.false_eq_true, if_false, and_self]
-
-theorem mismSgm_touch (m : DMap) (r c : Nat) (hr : r < m.rows) (hc : c < m.cols) (h : (m.flag r c).testBit 9 = true)
-    (ht : touchesOcclusion m r c = true) :
-    (mismSgm m).disp r c = m.disp r c ∧ (mismSgm m).flag r c = m.flag r c - mismatch + occlusion := by
-  have h9 : ((m.flag r c &&& mismatch) != 0) = true := by
-    have := hasBit_mismatch (m.flag r c); unfold hasBit at this; rw [this, h]
-  have h3 := occlusionSum3x3_ne_zero m r c hr hc
-  rw [ht] at h3
-  simp only [mismSgm, mismSgmPixel, h9, h3, if_true, and_self]
-
-theorem mismSgm_fill (m : DMap) (r c : Nat) (hr : r < m.rows) (hc : c < m.cols) (h : (m.flag r c).testBit 9 = true)
-    (ht : touchesOcclusion m r c = false) :
-    (mismSgm m).disp r c = median (nums (sourcesSgm m r c))
-    ∧ (mismSgm m).flag r c = m.flag r c - mismatch + filledMismatch := by
-  have h9 : ((m.flag r c &&& mismatch) != 0) = true := by
-    have := hasBit_mismatch (m.flag r c); unfold hasBit at this; rw [this, h]
-  have h3 := occlusionSum3x3_ne_zero m r c hr hc
-  rw [ht] at h3
-  simp only [mismSgm, mismSgmPixel, h9, h3, if_true, Bool.false_eq_true, if_false, and_true, nanmedian]
-  rw [findValidNeighbors_eq m r c hr hc, nums_map_getD]
-  rfl
-
-theorem occlSgm_unflagged (m : DMap) (r c : Nat) (h : (m.flag r c).testBit 8 = false) :
-    (occlSgm m).disp r c = m.disp r c ∧ (occlSgm m).flag r c = m.flag r c := by
-  have : ((m.flag r c &&& occlusion) != 0) = false := by
-    have := hasBit_occlusion (m.flag r c); unfold hasBit at this; rw [this, h]
-  simp only [occlSgm, occlSgmPixel, this, Bool.false_eq_true, if_false, and_self]
-
-/-- sgm occlusion with at least two finite sources: a finite entry of second-lowest absolute value -/
-theorem occlSgm_flagged (m : DMap) (r c : Nat) (hr : r < m.rows) (hc : c < m.cols) (h : (m.flag r c).testBit 8 = true)
-    (h2 : 2 ≤ (nums (sourcesSgm m r c)).length) :
-    (∃ q, (occlSgm m).disp r c = .num q ∧ isSecondLowestAbs (nums (sourcesSgm m r c)) q = true)
-    ∧ (occlSgm m).flag r c = m.flag r c - occlusion + filledOcclusion := by
-  have h8 : ((m.flag r c &&& occlusion) != 0) = true := by
-    have := hasBit_occlusion (m.flag r c); unfold hasBit at this; rw [this, h]
-  have hn : nums (findValidNeighbors m r c) = nums (sourcesSgm m r c) := by
-    rw [findValidNeighbors_eq m r c hr hc, nums_map_getD]; rfl
-  simp only [occlSgm, occlSgmPixel, h8, if_true, and_true]
-  rw [← hn] at h2 ⊢
-  exact secondLowestAbs_spec _ h2
-
-theorem occlSgm_flag (m : DMap) (r c : Nat) (h : (m.flag r c).testBit 8 = true) :
-    (occlSgm m).flag r c = m.flag r c - occlusion + filledOcclusion := by
-  have h8 : ((m.flag r c &&& occlusion) != 0) = true := by
-    have := hasBit_occlusion (m.flag r c); unfold hasBit at this; rw [this, h]
-  simp only [occlSgm, occlSgmPixel, h8, if_true]
-
-theorem bit8_false_of_bit9 (hwf : WFp .sgm off a) {r c : Nat} (hr : r < a.rows) (hc : c < a.cols)
+theorem bit8_false_of_bit9 (hwf : WFp op .sgm off a) {r c : Nat} (hr : r < a.rows) (hc : c < a.cols)
     (h9 : (a.flag r c).testBit 9 = true) : (a.flag r c).testBit 8 = false := by
   cases h8 : (a.flag r c).testBit 8
   · rfl
   · have := hwf.one r c hr hc h8; rw [this] at h9; cases h9
 
-/-- a mismatch not touching an occlusion: what the first pass produced is final -/
-theorem sgm_at_mism (hwf : WFp .sgm off a) {r c : Nat} (hr : r < a.rows) (hc : c < a.cols)
-    (h9 : (a.flag r c).testBit 9 = true) (ht : touchesOcclusion a r c = false) :
-    (sgm a).disp r c = (mismSgm a).disp r c ∧ (sgm a).flag r c = (mismSgm a).flag r c := by
-  have h8 := bit8_false_of_bit9 hwf hr hc h9
-  have h5 := hwf.st9 r c hr hc h9
-  have : ((mismSgm a).flag r c).testBit 8 = false := by
-    rw [(mismSgm_fill a r c hr hc h9 ht).2, fill_mism h9 h5, mismatch_pow, filledMismatch_pow, testBit_replaceBit]
-    simp [h8]
-  exact occlSgm_unflagged (mismSgm a) r c this
-
 theorem kindOf_sgm_mism {r c : Nat} (h8 : (a.flag r c).testBit 8 = false) (h9 : (a.flag r c).testBit 9 = true) :
     kindOf .sgm a r c = if touchesOcclusion a r c then .mismAsOccl else .mism := by
   simp [kindOf, hasBit_occlusion, hasBit_mismatch, h8, h9]
-
-theorem midOf_sgm_agree (hwf : WFp .sgm off a) : Agree (midOf .sgm a (sgm a)) (mismSgm a) := by
-  refine ⟨rfl, rfl, ?_, ?_⟩
-  · intro r c hr hc
-    by_cases h9 : (a.flag r c).testBit 9 = true
-    · have h8 := bit8_false_of_bit9 hwf hr hc h9
-      cases ht : touchesOcclusion a r c
-      · have hk : kindOf .sgm a r c = .mism := by rw [kindOf_sgm_mism h8 h9, ht]; rfl
-        simp only [midOf, hk, if_true]
-        exact (sgm_at_mism hwf hr hc h9 ht).1
-      · have hk : kindOf .sgm a r c = .mismAsOccl := by rw [kindOf_sgm_mism h8 h9, ht]; rfl
-        simp only [midOf, hk]
-        rw [(mismSgm_touch a r c hr hc h9 ht).1]; simp
-    · simp only [Bool.not_eq_true] at h9
-      have hk : kindOf .sgm a r c ≠ .mism := by
-        simp only [kindOf, hasBit_occlusion, hasBit_mismatch, h9]
-        cases (a.flag r c).testBit 8 <;> simp
-      simp only [midOf, hk, if_false]
-      exact (mismSgm_unflagged a r c h9).1.symm
-  · intro r c hr hc
-    by_cases h9 : (a.flag r c).testBit 9 = true
-    · have h8 := bit8_false_of_bit9 hwf hr hc h9
-      cases ht : touchesOcclusion a r c
-      · have hk : kindOf .sgm a r c = .mism := by rw [kindOf_sgm_mism h8 h9, ht]; rfl
-        simp only [midOf, hk]
-        exact (sgm_at_mism hwf hr hc h9 ht).2
-      · have hk : kindOf .sgm a r c = .mismAsOccl := by rw [kindOf_sgm_mism h8 h9, ht]; rfl
-        simp only [midOf, hk]
-        rw [(mismSgm_touch a r c hr hc h9 ht).2, mism_to_occl h9 h8]
-    · simp only [Bool.not_eq_true] at h9
-      have := (mismSgm_unflagged a r c h9).2
-      simp only [midOf, kindOf, hasBit_occlusion, hasBit_mismatch, h9]
-      cases (a.flag r c).testBit 8 <;> simp [this]
 
 theorem sgm_input_sources_bdd (r c : Nat) : ∀ q ∈ nums (sourcesSgm a r c), Bdd a q := by
   intro q hq
@@ -588,620 +527,42 @@ theorem sgm_input_sources_bdd (r c : Nat) : ∀ q ∈ nums (sourcesSgm a r c), B
   obtain ⟨r', c', hr', hc', hv, hdisp⟩ := ray_source_pixel hd
   exact Bdd.self hr' hc' hv hdisp
 
-/-- a valid pixel of the map after the mismatch pass carries a disparity between two valid disparities
-    of the input -/
-theorem mismSgm_valid_bdd (hwf : WFp .sgm off a) {r c : Nat} (hr : r < a.rows) (hc : c < a.cols)
-    (hv : (mismSgm a).valid r c = true) {q : Rat} (hd : (mismSgm a).disp r c = .num q) : Bdd a q := by
-  by_cases h9 : (a.flag r c).testBit 9 = true
-  · have h8 := bit8_false_of_bit9 hwf hr hc h9
-    cases ht : touchesOcclusion a r c
-    · rw [(mismSgm_fill a r c hr hc h9 ht).1] at hd
-      exact Bdd.median (sgm_input_sources_bdd r c) hd
-    · exfalso
-      have : (mismSgm a).valid r c = false := by
-        apply not_valid_of_bit8
-        rw [(mismSgm_touch a r c hr hc h9 ht).2, mism_to_occl h9 h8, mismatch_pow, occlusion_pow, testBit_replaceBit]
-        simp
-      rw [this] at hv; cases hv
-  · simp only [Bool.not_eq_true] at h9
-    have := mismSgm_unflagged a r c h9
-    unfold DMap.valid at hv
-    rw [this.2] at hv; rw [this.1] at hd
-    exact Bdd.self hr hc hv hd
-
-theorem sgm_sources_bdd (hwf : WFp .sgm off a) (r c : Nat) : ∀ q ∈ nums (sourcesSgm (mismSgm a) r c), Bdd a q := by
-  intro q hq
-  rw [mem_nums] at hq
-  unfold sourcesSgm at hq
-  rw [List.mem_filterMap] at hq
-  obtain ⟨d, _, hd⟩ := hq
-  obtain ⟨r', c', hr', hc', hv, hdisp⟩ := ray_source_pixel hd
-  exact mismSgm_valid_bdd hwf hr' hc' hv hdisp
-
 theorem isSecondLowestAbs_mem {l : List Rat} {q : Rat} (h : isSecondLowestAbs l q = true) : q ∈ l := by
   unfold isSecondLowestAbs at h
   simp only [Bool.and_eq_true] at h
   exact List.contains_iff_mem.mp h.1.1
 
-/-- a pixel handled as an occlusion by sgm (bit 8 after the first pass), with two sources -/
-theorem sgm_occl_core (hwf : WFp .sgm off a) {r c : Nat} (hr : r < a.rows) (hc : c < a.cols)
-    (h8 : ((mismSgm a).flag r c).testBit 8 = true) (h2 : 2 ≤ (nums (sourcesSgm (mismSgm a) r c)).length) :
-    ∃ q, (sgm a).disp r c = .num q ∧ isSecondLowestAbs (nums (sourcesSgm (mismSgm a) r c)) q = true
-      ∧ betweenValid a q = true := by
-  obtain ⟨⟨q, hq, hs⟩, _⟩ := occlSgm_flagged (mismSgm a) r c hr hc h8 h2
-  refine ⟨q, hq, hs, ?_⟩
-  rw [betweenValid_iff]
-  exact sgm_sources_bdd hwf r c q (isSecondLowestAbs_mem hs)
 
-theorem sgm_outcome (hwf : WFp .sgm off a) {r c : Nat} (hr : r < a.rows) (hc : c < a.cols)
-    (hok : okAt .sgm a (mismSgm a) r c = true) : Outcome .sgm off a (sgm a) r c := by
-  have hborder : ∀ k, (leftNodataOrBorder).testBit k = false → (a.flag r c).testBit k = true →
-      (decide (off > 0) && isBorder a off r c) = false := by
-    intro k h1 hk
-    cases hb : (decide (off > 0) && isBorder a off r c)
-    · rfl
-    · have := hwf.bc r c hr hc hb; rw [this, h1] at hk; cases hk
-  by_cases h8 : (a.flag r c).testBit 8 = true
-  · -- occlusion
-    have h9 : (a.flag r c).testBit 9 = false := hwf.one r c hr hc h8
-    have h4 : (a.flag r c).testBit 4 = false := hwf.st8 r c hr hc h8
-    have hnb := hborder 8 one_testBit8 h8
-    have hfl : flagged (a.flag r c) = true := by rw [flagged_eq, h8]; rfl
-    have hk : kindOf .sgm a r c = .occl := by simp [kindOf, hasBit_occlusion, h8]
-    obtain ⟨_, hm2⟩ := mismSgm_unflagged a r c h9
-    have h8' : ((mismSgm a).flag r c).testBit 8 = true := by rw [hm2]; exact h8
-    simp only [okAt, hk, decide_eq_true_eq] at hok
-    obtain ⟨q, hq, hs, hbd⟩ := sgm_occl_core hwf hr hc h8' hok
-    have hg : (sgm a).flag r c = replaceBit (a.flag r c) occlusion filledOcclusion := by
-      show (occlSgm (mismSgm a)).flag r c = _
-      rw [occlSgm_flag _ r c h8', hm2, fill_occl h8 h4]
-    have hsrcs : sourcesOf .sgm a (sgm a) r c = nums (sourcesSgm (mismSgm a) r c) := by
-      simp only [sourcesOf, hk]; rw [sourcesSgm_congr (midOf_sgm_agree hwf)]
-    refine Outcome.filled hfl hnb (by rw [hk]; exact hg) ?_ q hq ?_ hbd ?_
-    · rw [hg, flagged_eq, occlusion_pow, filledOcclusion_pow, testBit_replaceBit, testBit_replaceBit]; simp [h9]
-    · rw [hk, hsrcs]; simp [valueOK, hs]
-    · rw [hk, hsrcs]; simpa [enoughSources] using hok
-  · simp only [Bool.not_eq_true] at h8
-    by_cases h9 : (a.flag r c).testBit 9 = true
-    · have h5 : (a.flag r c).testBit 5 = false := hwf.st9 r c hr hc h9
-      have h4 : (a.flag r c).testBit 4 = false := hwf.st9s rfl r c hr hc h9
-      have hnb := hborder 9 one_testBit9 h9
-      have hfl : flagged (a.flag r c) = true := by rw [flagged_eq, h9]; simp
-      cases ht : touchesOcclusion a r c
-      · -- mismatch filled as a mismatch
-        have hk : kindOf .sgm a r c = .mism := by rw [kindOf_sgm_mism h8 h9, ht]; rfl
-        simp only [okAt, hk, Bool.not_eq_true'] at hok
-        obtain ⟨hb1, hb2⟩ := sgm_at_mism hwf hr hc h9 ht
-        obtain ⟨hm1, hm2⟩ := mismSgm_fill a r c hr hc h9 ht
-        have hg : (sgm a).flag r c = replaceBit (a.flag r c) mismatch filledMismatch := by
-          rw [hb2, hm2, fill_mism h9 h5]
-        have hsrcs : sourcesOf .sgm a (sgm a) r c = nums (sourcesSgm a r c) := by simp only [sourcesOf, hk]
-        have hne : nums (sourcesSgm a r c) ≠ [] := by intro h0; rw [h0] at hok; simp at hok
-        cases hmed : median (nums (sourcesSgm a r c)) with
-        | nan => exact absurd ((median_eq_nan_iff _).mp hmed) hne
-        | num q =>
-          refine Outcome.filled hfl hnb (by rw [hk]; exact hg) ?_ q (by rw [hb1, hm1, hmed]) ?_ ?_ ?_
-          · rw [hg, flagged_eq, mismatch_pow, filledMismatch_pow, testBit_replaceBit, testBit_replaceBit]; simp [h8]
-          · rw [hk, hsrcs]; simp [valueOK, hmed]
-          · rw [betweenValid_iff]; exact Bdd.median (sgm_input_sources_bdd r c) hmed
-          · rw [hk, hsrcs]; simp only [enoughSources, decide_eq_true_eq]
-            cases hl : nums (sourcesSgm a r c) with
-            | nil => exact absurd hl hne
-            | cons x t => simp
-      · -- mismatch touching an occlusion: handled as an occlusion
-        have hk : kindOf .sgm a r c = .mismAsOccl := by rw [kindOf_sgm_mism h8 h9, ht]; rfl
-        simp only [okAt, hk, decide_eq_true_eq] at hok
-        obtain ⟨_, hm2⟩ := mismSgm_touch a r c hr hc h9 ht
-        have hf1 : (mismSgm a).flag r c = replaceBit (a.flag r c) (2 ^ 9) (2 ^ 8) := by
-          rw [hm2, mism_to_occl h9 h8, mismatch_pow, occlusion_pow]
-        have h8' : ((mismSgm a).flag r c).testBit 8 = true := by rw [hf1, testBit_replaceBit]; simp
-        have h4' : ((mismSgm a).flag r c).testBit 4 = false := by rw [hf1, testBit_replaceBit]; simp [h4]
-        obtain ⟨q, hq, hs, hbd⟩ := sgm_occl_core hwf hr hc h8' hok
-        have hg : (sgm a).flag r c = replaceBit (a.flag r c) mismatch filledOcclusion := by
-          show (occlSgm (mismSgm a)).flag r c = _
-          rw [occlSgm_flag _ r c h8', fill_occl h8' h4', hf1, occlusion_pow, filledOcclusion_pow, mismatch_pow,
-            replaceBit_twice _ 9 8 4 h8 (by decide)]
-        have hsrcs : sourcesOf .sgm a (sgm a) r c = nums (sourcesSgm (mismSgm a) r c) := by
-          simp only [sourcesOf, hk]; rw [sourcesSgm_congr (midOf_sgm_agree hwf)]
-        refine Outcome.filled hfl hnb (by rw [hk]; exact hg) ?_ q hq ?_ hbd ?_
-        · rw [hg, flagged_eq, mismatch_pow, filledOcclusion_pow, testBit_replaceBit, testBit_replaceBit]; simp [h8]
-        · rw [hk, hsrcs]; simp [valueOK, hs]
-        · rw [hk, hsrcs]; simpa [enoughSources] using hok
-    · -- neither bit
-      simp only [Bool.not_eq_true] at h9
-      have hfl : flagged (a.flag r c) = false := by rw [flagged_eq, h8, h9]; rfl
-      obtain ⟨hm1, hm2⟩ := mismSgm_unflagged a r c h9
-      have h8' : ((mismSgm a).flag r c).testBit 8 = false := by rw [hm2]; exact h8
-      obtain ⟨ho1, ho2⟩ := occlSgm_unflagged (mismSgm a) r c h8'
-      exact Outcome.untouched hfl (by show (occlSgm (mismSgm a)).disp r c = _; rw [ho1, hm1])
-        (by show (occlSgm (mismSgm a)).flag r c = _; rw [ho2, hm2]) (hwf.bc r c hr hc)
-
-end sgm
-
-
-/-! ### 8. The theorems that carry the property -/
-
-theorem okAt_of_unflagged {meth : Method} {a mid : DMap} {r c : Nat} (h : flagged (a.flag r c) = false) :
-    okAt meth a mid r c = true := by
-  unfold flagged at h
-  simp only [Bool.or_eq_false_iff] at h
-  have hk : kindOf meth a r c = .none := by simp [kindOf, h.1, h.2]
-  unfold okAt; rw [hk]; cases meth <;> rfl
-
-theorem okAt_mccnn_occl {a mid : DMap} {r c : Nat} (h : hasBit (a.flag r c) occlusion = true) :
-    okAt .mccnn a mid r c = true := by
-  have hk : kindOf .mccnn a r c = .occl := by simp [kindOf, h]
-  unfold okAt; rw [hk]
-
-/-- MAIN (per pixel).  For every well-formed map of any size, every pixel that is not in one of the
-    four "fills from nothing" situations (`okAt`) satisfies all the clauses of C14 after filling. -/
-theorem outcome (meth : Method) (off : Nat) (a : DMap) (hwf : wf meth off a = true) {r c : Nat}
-    (hr : r < a.rows) (hc : c < a.cols) (hok : okAt meth a (firstPass meth a) r c = true) :
-    Outcome meth off a (interpolate meth off a) r c := by
-  cases meth with
-  | mccnn => exact mccnn_outcome (wf_elim hwf) hr hc hok
-  | sgm => exact sgm_outcome (wf_elim hwf) hr hc hok
-
-theorem pixel_ok (meth : Method) (off : Nat) (a : DMap) (hwf : wf meth off a = true) {r c : Nat}
-    (hr : r < a.rows) (hc : c < a.cols) (hok : okAt meth a (firstPass meth a) r c = true) :
-    pixelOK meth off a (interpolate meth off a) r c = true :=
-  pixelOK_of_outcome (outcome meth off a hwf hr hc hok)
-
-/-
-  Full-strength statement (FALSE of the code, see the counterexamples of section 9):
-      ∀ meth off a, wf meth off a = true → spec meth off a (interpolate meth off a) = true
-  What is proved: the same under `noTrigger meth a = true` (no flagged pixel is in one of the four
-  situations in which the code fills from nothing).  What is missing is exactly findings F6a–F6d.
--/
-theorem spec_holds_partial (meth : Method) (off : Nat) (a : DMap) (hwf : wf meth off a = true)
-    (hnt : noTrigger meth a = true) : spec meth off a (interpolate meth off a) = true := by
-  unfold noTrigger at hnt
-  rw [allPx_iff] at hnt
-  unfold spec
-  have h1 : (interpolate meth off a).rows = a.rows := by cases meth <;> rfl
-  have h2 : (interpolate meth off a).cols = a.cols := by cases meth <;> rfl
-  simp only [h1, h2, decide_true, Bool.true_and, List.all_eq_true, List.mem_range]
-  intro r hr c hc
-  exact pixel_ok meth off a hwf hr hc (hnt r c hr hc)
-
-/-- FULL STRENGTH: only pixels flagged 8 or 9 can change — every other pixel keeps its disparity and
-    its flags bit for bit (any well-formed map, both methods, including maps full of defect situations). -/
-theorem unflagged_untouched (meth : Method) (off : Nat) (a : DMap) (hwf : wf meth off a = true) {r c : Nat}
-    (hr : r < a.rows) (hc : c < a.cols) (hf : flagged (a.flag r c) = false) :
-    (interpolate meth off a).disp r c = a.disp r c ∧ (interpolate meth off a).flag r c = a.flag r c := by
-  cases outcome meth off a hwf hr hc (okAt_of_unflagged hf) with
-  | untouched _ hd hg _ => exact ⟨hd, hg⟩
-  | unfilled hf' => rw [hf] at hf'; cases hf'
-  | filled hf' => rw [hf] at hf'; cases hf'
-
-/-- FULL STRENGTH: mc-cnn masks the border whatever the input is: border pixels end with bit 0 only. -/
-theorem border_bit0_only_mccnn (off : Nat) (a : DMap) (r c : Nat)
-    (h : (decide (off > 0) && isBorder a off r c) = true) : (mccnn off a).flag r c = leftNodataOrBorder := by
-  rw [mccnn_flag, if_pos h]
-
-/-- FULL STRENGTH: border pixels end with bit 0 only, both methods (sgm: because they are left untouched). -/
-theorem border_bit0_only (meth : Method) (off : Nat) (a : DMap) (hwf : wf meth off a = true) {r c : Nat}
-    (hr : r < a.rows) (hc : c < a.cols) (h : (decide (off > 0) && isBorder a off r c) = true) :
-    (interpolate meth off a).flag r c = leftNodataOrBorder := by
-  have hf1 := (wf_elim hwf).bc r c hr hc h
-  have hf : flagged (a.flag r c) = false := by rw [hf1]; decide
-  rw [(unflagged_untouched meth off a hwf hr hc hf).2, hf1]
-
-/-- FULL STRENGTH: an occlusion pixel under mc-cnn satisfies every clause: it takes the disparity of the
-    nearest valid pixel on its left (otherwise on its right) and bit 8 becomes bit 4, or — without any valid
-    pixel in its row — it stays as it was. -/
-theorem mccnn_occlusion_full (off : Nat) (a : DMap) (hwf : wf .mccnn off a = true) {r c : Nat}
-    (hr : r < a.rows) (hc : c < a.cols) (h8 : hasBit (a.flag r c) occlusion = true) :
-    pixelOK .mccnn off a (mccnn off a) r c = true :=
-  pixel_ok .mccnn off a hwf hr hc (okAt_mccnn_occl h8)
-
-/-- FULL STRENGTH (flags): whatever the sources, a flagged pixel is never on the border and ends with
-    bit 8 replaced by 4 / bit 9 by 5 (sgm: by 4 when it touches an occlusion), or with its flags unchanged
-    (only mc-cnn occlusions without source); in particular no other bit ever changes. -/
-theorem filled_bits (meth : Method) (off : Nat) (a : DMap) (hwf : wf meth off a = true) {r c : Nat}
-    (hr : r < a.rows) (hc : c < a.cols) (hf : flagged (a.flag r c) = true) :
-    (decide (off > 0) && isBorder a off r c) = false ∧
-    ((interpolate meth off a).flag r c = filledFlag (kindOf meth a r c) (a.flag r c)
-      ∨ ((interpolate meth off a).flag r c = a.flag r c ∧ meth = .mccnn ∧ kindOf meth a r c = .occl
-          ∧ sourceOcclMc a r c = none)) := by
-  have hw := wf_elim hwf
-  rw [flagged_eq] at hf
-  cases meth with
-  | mccnn =>
-    by_cases h8 : (a.flag r c).testBit 8 = true
-    · have hnb := not_border_of_bit hw hr hc one_testBit8 h8
-      have hk : kindOf .mccnn a r c = .occl := by simp [kindOf, hasBit_occlusion, h8]
-      obtain ⟨_, hb2⟩ := mccnn_at_occl hw hr hc h8
-      obtain ⟨hs, hn⟩ := occlMc_flagged a r c hc h8
-      refine ⟨hnb, ?_⟩
-      cases hsrc : sourceOcclMc a r c with
-      | none => exact Or.inr ⟨by show (mccnn off a).flag r c = _; rw [hb2, (hn hsrc).2], rfl, hk, rfl⟩
-      | some v =>
-        left; show (mccnn off a).flag r c = _
-        rw [hb2, (hs v hsrc).2, fill_occl h8 (hw.st8 r c hr hc h8), hk]; rfl
-    · simp only [Bool.not_eq_true] at h8
-      have h9 : (a.flag r c).testBit 9 = true := by rw [h8] at hf; simpa using hf
-      have hnb := not_border_of_bit hw hr hc one_testBit9 h9
-      have hk : kindOf .mccnn a r c = .mism := by simp [kindOf, hasBit_occlusion, hasBit_mismatch, h8, h9]
-      obtain ⟨_, ho2⟩ := occlMc_unflagged a r c h8
-      have h9' : ((occlMc a).flag r c).testBit 9 = true := by rw [ho2]; exact h9
-      refine ⟨hnb, Or.inl ?_⟩
-      show (mccnn off a).flag r c = _
-      rw [mccnn_flag, hnb]; simp only [Bool.false_eq_true, if_false]
-      rw [mismMc_flag _ r c h9', ho2, fill_mism h9 (hw.st9 r c hr hc h9), hk]; rfl
-  | sgm =>
-    have hborder : ∀ k, (leftNodataOrBorder).testBit k = false → (a.flag r c).testBit k = true →
-        (decide (off > 0) && isBorder a off r c) = false := by
-      intro k h1 hk
-      cases hb : (decide (off > 0) && isBorder a off r c)
-      · rfl
-      · have := hw.bc r c hr hc hb; rw [this, h1] at hk; cases hk
-    by_cases h8 : (a.flag r c).testBit 8 = true
-    · have h9 : (a.flag r c).testBit 9 = false := hw.one r c hr hc h8
-      have hk : kindOf .sgm a r c = .occl := by simp [kindOf, hasBit_occlusion, h8]
-      obtain ⟨_, hm2⟩ := mismSgm_unflagged a r c h9
-      have h8' : ((mismSgm a).flag r c).testBit 8 = true := by rw [hm2]; exact h8
-      refine ⟨hborder 8 one_testBit8 h8, Or.inl ?_⟩
-      show (occlSgm (mismSgm a)).flag r c = _
-      rw [occlSgm_flag _ r c h8', hm2, fill_occl h8 (hw.st8 r c hr hc h8), hk]; rfl
-    · simp only [Bool.not_eq_true] at h8
-      have h9 : (a.flag r c).testBit 9 = true := by rw [h8] at hf; simpa using hf
-      have h5 := hw.st9 r c hr hc h9
-      have h4 := hw.st9s rfl r c hr hc h9
-      refine ⟨hborder 9 one_testBit9 h9, Or.inl ?_⟩
-      cases ht : touchesOcclusion a r c
-      · have hk : kindOf .sgm a r c = .mism := by rw [kindOf_sgm_mism h8 h9, ht]; rfl
-        show (sgm a).flag r c = _
-        rw [(sgm_at_mism hw hr hc h9 ht).2, (mismSgm_fill a r c hr hc h9 ht).2, fill_mism h9 h5, hk]; rfl
-      · have hk : kindOf .sgm a r c = .mismAsOccl := by rw [kindOf_sgm_mism h8 h9, ht]; rfl
-        have hf1 : (mismSgm a).flag r c = replaceBit (a.flag r c) (2 ^ 9) (2 ^ 8) := by
-          rw [(mismSgm_touch a r c hr hc h9 ht).2, mism_to_occl h9 h8, mismatch_pow, occlusion_pow]
-        have h8' : ((mismSgm a).flag r c).testBit 8 = true := by rw [hf1, testBit_replaceBit]; simp
-        have h4' : ((mismSgm a).flag r c).testBit 4 = false := by rw [hf1, testBit_replaceBit]; simp [h4]
-        show (occlSgm (mismSgm a)).flag r c = _
-        rw [occlSgm_flag _ r c h8', fill_occl h8' h4', hf1, hk, occlusion_pow, filledOcclusion_pow,
-          replaceBit_twice _ 9 8 4 h8 (by decide)]
-        simp [filledFlag, mismatch_pow, filledOcclusion_pow]
-
-
-/-! ### 9. Counterexamples to the full-strength statement (findings F6a–F6d, F4), replayed on the
-    implementation from `corpus/C14/`, and non-vacuity of the hypotheses -/
-
-/-- a map from nested lists (cells outside read as NaN / 0) -/
-def mapOf (disp : List (List Val)) (flag : List (List Nat)) : DMap :=
-  { rows := flag.length, cols := (flag.headD []).length,
-    disp := fun r c => (disp.getD r []).getD c .nan, flag := fun r c => (flag.getD r []).getD c 0 }
-
-def okOf (cl : View → Clause) (meth : Method) (off : Nat) (a : DMap) (r c : Nat) : Bool :=
-  (cl (viewAt meth off a (interpolate meth off a) r c)).ok
-
-/-- F6a (corpus f6a_mccnn_mismatch_nan.json): a mismatch with no valid pixel on its 16 scan lines is
-    filled with NaN and marked "filled mismatch". -/
-def exF6a : DMap := mapOf [[.num 5, .num 6, .nan, .num 8, .num 9]] [[1, 1, 512, 1, 1]]
-
-theorem mccnn_mismatch_nan_counterexample :
-    wf .mccnn 0 exF6a = true
-    ∧ (mccnn 0 exF6a).disp 0 2 = .nan ∧ (mccnn 0 exF6a).flag 0 2 = 32
-    ∧ okOf cFilledFinite .mccnn 0 exF6a 0 2 = false ∧ okOf cNoSource .mccnn 0 exF6a 0 2 = false
-    ∧ spec .mccnn 0 exF6a (interpolate .mccnn 0 exF6a) = false := by decide
-
-/-- F6b (corpus f6b_mccnn_mismatch_zero.json): two scan lines of the mismatch at (0,0) run their
-    max(rows, cols) − 1 = 2 steps inside the image on invalid pixels: the 0 of `np.zeros` enters the median
-    twice, the only valid pixel in sight carries 7, the pixel is filled with 0 — outside [7, 7]. -/
-def exF6b : DMap := mapOf [[.nan, .nan, .nan], [.nan, .num 7, .nan]] [[512, 2, 2], [2, 0, 2]]
-
-theorem mccnn_mismatch_zero_counterexample :
-    wf .mccnn 0 exF6b = true
-    ∧ (mccnn 0 exF6b).disp 0 0 = .num 0 ∧ (mccnn 0 exF6b).flag 0 0 = 32
-    ∧ sourcesOf .mccnn exF6b (mccnn 0 exF6b) 0 0 = [7]
-    ∧ okOf (cFilledFromValid .mccnn) .mccnn 0 exF6b 0 0 = false
-    ∧ okOf (cFilledBetween exF6b) .mccnn 0 exF6b 0 0 = false
-    ∧ spec .mccnn 0 exF6b (interpolate .mccnn 0 exF6b) = false := by decide
-
-/-- F6c (corpus f6c_sgm_mismatch_nan.json): sgm, mismatch without valid pixel on its 8 scan lines. -/
-def exF6c : DMap :=
-  mapOf [[.num 5, .num 6, .num 7], [.num 1, .nan, .num 3], [.num 1, .num 4, .num (-1)]] [[1, 1, 1], [1, 512, 1], [1, 1, 1]]
-
-theorem sgm_mismatch_nan_counterexample :
-    wf .sgm 0 exF6c = true
-    ∧ (sgm exF6c).disp 1 1 = .nan ∧ (sgm exF6c).flag 1 1 = 32
-    ∧ okOf cFilledFinite .sgm 0 exF6c 1 1 = false ∧ okOf cNoSource .sgm 0 exF6c 1 1 = false
-    ∧ spec .sgm 0 exF6c (interpolate .sgm 0 exF6c) = false := by decide
-
-/-- F6d (corpus f6d_sgm_occlusion_nan.json): sgm, occlusion with a single valid pixel in sight:
-    `argsort(|·|)[1]` points at a NaN. -/
-def exF6d : DMap :=
-  mapOf [[.num 5, .num 6, .num 7], [.num 1, .nan, .num 3], [.num 1, .num 4, .num (-1)]] [[1, 1, 1], [0, 256, 1], [1, 1, 1]]
-
-theorem sgm_occlusion_nan_counterexample :
-    wf .sgm 0 exF6d = true
-    ∧ sourcesOf .sgm exF6d (sgm exF6d) 1 1 = [1]
-    ∧ (sgm exF6d).disp 1 1 = .nan ∧ (sgm exF6d).flag 1 1 = 16
-    ∧ okOf cFilledFinite .sgm 0 exF6d 1 1 = false
-    ∧ spec .sgm 0 exF6d (interpolate .sgm 0 exF6d) = false := by decide
-
-/-- F4 (corpus f4_stale_filled_bit.json): outside `wf` — an occlusion that already carries bit 4 (left by an
-    earlier validation step with filling) ends with bit 5 instead of bit 4: `+=` carries. -/
-def exF4 : DMap := mapOf [[.num 3, .nan, .num 4]] [[0, 272, 0]]
-
-theorem stale_filled_bit_counterexample :
-    noStaleFill .mccnn exF4 = false ∧ (mccnn 0 exF4).flag 0 1 = 32
-    ∧ filledFlag .occl 272 = 16 ∧ okOf cFilledBits .mccnn 0 exF4 0 1 = false := by decide
-
-/-- non-vacuity, mc-cnn: a well-formed map without defect situation, an occlusion filled from its left
-    (3) and a mismatch filled with the median of {4,4,4,3,3,3,5,5,5,4,4} = 4 (the filled occlusion is one of
-    the sources, three times). -/
-def exOkMc : DMap := mapOf [[.num 3, .nan, .nan, .num 5], [.num 4, .num 4, .num 4, .num 4]] [[0, 256, 512, 0], [0, 0, 0, 0]]
-
-example : wf .mccnn 0 exOkMc = true ∧ noTrigger .mccnn exOkMc = true
-    ∧ (mccnn 0 exOkMc).disp 0 1 = .num 3 ∧ (mccnn 0 exOkMc).flag 0 1 = 16
-    ∧ (mccnn 0 exOkMc).disp 0 2 = .num 4 ∧ (mccnn 0 exOkMc).flag 0 2 = 32
-    ∧ spec .mccnn 0 exOkMc (interpolate .mccnn 0 exOkMc) = true := by decide
-
-/-- non-vacuity, sgm: an occlusion (second lowest |d| of its 7 finite neighbours 6, 5, 4, 1, 2, 3, −2: the tie
-    |2| = |−2| goes to the first in direction order, 2) and a mismatch touching it (handled as an occlusion:
-    −2 among {−2, 1, 6}), offset 1 with a clean border on a 5×5 map. -/
-def exOkSgm : DMap :=
-  mapOf [[.nan, .nan, .nan, .nan, .nan], [.nan, .num 1, .num 2, .num 3, .nan], [.nan, .num 4, .nan, .num (-2), .nan],
-         [.nan, .num 5, .num 6, .nan, .nan], [.nan, .nan, .nan, .nan, .nan]]
-        [[1, 1, 1, 1, 1], [1, 0, 0, 0, 1], [1, 0, 256, 0, 1], [1, 0, 0, 512, 1], [1, 1, 1, 1, 1]]
-
-example : wf .sgm 1 exOkSgm = true ∧ noTrigger .sgm exOkSgm = true
-    ∧ (sgm exOkSgm).disp 2 2 = .num 2 ∧ (sgm exOkSgm).flag 2 2 = 16
-    ∧ (sgm exOkSgm).disp 3 3 = .num (-2) ∧ (sgm exOkSgm).flag 3 3 = 16
-    ∧ spec .sgm 1 exOkSgm (interpolate .sgm 1 exOkSgm) = true := by decide
-
-
-/-! ### 10. The code with `proposed_fixes/C14-fill-from-nothing.diff` applied satisfies the full-strength
-    statement (`Model/InterpRepaired.lean`, variant `guard`) -/
-
-namespace R
-open Pandora.Interp.Repaired
-
-/-- the variant with the first patch only -/
-def vg : Variant := { guard := true, bitops := false }
-
-theorem upd_vg (f old new : Nat) : upd vg f old new = f - old + new := rfl
-
-theorem scanLoopI_eq (init : Val) (m : DMap) (pos : Nat → Int × Int) : ∀ fuel i, scanLoopI init m pos fuel i =
-    match (List.range' i fuel).find? (stopAt m pos) with
-    | none => init
-    | some j => if m.inside (pos j) then m.dispAt (pos j) else .nan := by
-  intro fuel
-  induction fuel with
-  | zero => intro i; simp [scanLoopI]
-  | succ n ih =>
-    intro i
-    rw [List.range'_succ, List.find?_cons]
-    unfold scanLoopI
-    by_cases hin : m.inside (pos i) = true
-    · by_cases hv : m.validAt (pos i) = true
-      · simp [stopAt, hin, hv]
-      · simp only [Bool.not_eq_true] at hv
-        simp [stopAt, hin, hv, ih (i + 1)]
-    · simp only [Bool.not_eq_true] at hin
-      simp [stopAt, hin]
-
-/-- with a NaN-initialised accumulator the mc-cnn scan is exactly "first valid pixel of the ray, or NaN" -/
-theorem scanMcR_eq (m : DMap) (r c : Nat) (hr : r < m.rows) (hc : c < m.cols) (d : Int × Int) (hd : d ∈ dirs16) :
-    scanLoopI .nan m (posMc r c d) (max m.cols m.rows - 1) 1 = (firstValid m (rayPts m (posMc r c d))).getD .nan := by
-  have hM : max m.cols m.rows = (max m.cols m.rows - 1) + 1 := by
-    have : 1 ≤ max m.cols m.rows := Nat.le_trans (by omega) (Nat.le_max_left m.cols m.rows)
-    omega
-  rw [scanLoopI_eq, firstValid_rayPts]
-  generalize hS : List.range' 1 (max m.cols m.rows - 1) = S
-  have hfull : List.range' 1 (max m.cols m.rows) = S ++ [max m.cols m.rows] := by
-    rw [← hS]; conv => lhs; rw [hM]
-    rw [List.range'_concat]; simp; omega
-  rw [hfull, List.find?_append]
-  cases hf : S.find? (stopAt m (posMc r c d)) with
-  | none =>
-    have hout := ray_leaves_mc hr hc hd (Nat.le_refl (max m.cols m.rows))
-    simp [stopAt, hout]
-  | some j =>
-    simp only [Option.some_or]
-    by_cases hin : m.inside (posMc r c d j) = true <;> simp [hin]
-
-theorem occlMcPixelR_eq (m : DMap) (r c : Nat) : Repaired.occlMcPixel vg m r c = Interp.occlMcPixel m r c := by
-  unfold Repaired.occlMcPixel Interp.occlMcPixel
-  simp only [upd_vg]
-  split
-  · split
-    · cases (List.map (fun k => m.valid r (c + k)) (List.range (m.cols - c))).getD
-        (argmaxBool (List.map (fun k => m.valid r (c + k)) (List.range (m.cols - c)))) false <;> simp [b2n]
-    · cases (List.map (fun j => m.valid r j) (List.range (c + 1))).reverse.getD
-        (argmaxBool (List.map (fun j => m.valid r j) (List.range (c + 1))).reverse) false <;> simp [b2n]
-  · rfl
-
-theorem firstPass_mccnnR (a : DMap) : lift (Repaired.occlMcPixel vg) a = occlMc a := by
-  unfold lift occlMc
-  congr 1 <;> funext r c <;> rw [occlMcPixelR_eq]
-
-theorem mismMcR_unflagged (m : DMap) (r c : Nat) (h : (m.flag r c).testBit 9 = false) :
-    (lift (Repaired.mismMcPixel vg) m).disp r c = m.disp r c ∧ (lift (Repaired.mismMcPixel vg) m).flag r c = m.flag r c := by
+theorem mismSgmV_unflagged (m : DMap) (r c : Nat) (h : (m.flag r c).testBit 9 = false) :
+    (mismSgm (Variant.mk true op) m).disp r c = m.disp r c ∧ (mismSgm (Variant.mk true op) m).flag r c = m.flag r c := by
   have : ((m.flag r c &&& mismatch) != 0) = false := by
     have := hasBit_mismatch (m.flag r c); unfold hasBit at this; rw [this, h]
-  simp only [lift, Repaired.mismMcPixel, this, Bool.false_eq_true, if_false, and_self]
+  simp only [mismSgm, lift, mismSgmPixel, this, Bool.false_eq_true, if_false, and_self]
 
-/-- repaired mc-cnn mismatch: no source → untouched; otherwise the median of the sources, bit 9 → bit 5 -/
-theorem mismMcR_flagged (m : DMap) (r c : Nat) (hr : r < m.rows) (hc : c < m.cols) (h : (m.flag r c).testBit 9 = true) :
-    (nums (sourcesMc m r c) = [] →
-      (lift (Repaired.mismMcPixel vg) m).disp r c = m.disp r c ∧ (lift (Repaired.mismMcPixel vg) m).flag r c = m.flag r c) ∧
-    (nums (sourcesMc m r c) ≠ [] →
-      (lift (Repaired.mismMcPixel vg) m).disp r c = median (nums (sourcesMc m r c))
-      ∧ (lift (Repaired.mismMcPixel vg) m).flag r c = m.flag r c - mismatch + filledMismatch) := by
-  have h9 : ((m.flag r c &&& mismatch) != 0) = true := by
-    have := hasBit_mismatch (m.flag r c); unfold hasBit at this; rw [this, h]
-  have hint : (dirs16.map fun d => scanLoopI .nan m (posMc r c d) (max m.cols m.rows - 1) 1)
-      = dirs16.map fun d => (firstValid m (rayPts m (posMc r c d))).getD .nan := by
-    apply List.map_congr_left; intro d hd; exact scanMcR_eq m r c hr hc d hd
-  have hn : nums (dirs16.map fun d => scanLoopI .nan m (posMc r c d) (max m.cols m.rows - 1) 1) = nums (sourcesMc m r c) := by
-    rw [hint, nums_map_getD]; rfl
-  simp only [lift, Repaired.mismMcPixel, h9, if_true, vg, upd, Bool.true_and, Bool.false_eq_true, if_false, nanmedian]
-  rw [hn]
-  constructor
-  · intro h0; simp [h0]
-  · intro h0
-    have : (nums (sourcesMc m r c)).isEmpty = false := by
-      cases hl : nums (sourcesMc m r c) with
-      | nil => exact absurd hl h0
-      | cons x t => rfl
-    simp [this]
-
-section mccnnR
-variable {off : Nat} {a : DMap}
-
-theorem mccnnR_disp (off : Nat) (a : DMap) (r c : Nat) :
-    (Repaired.interpolate vg .mccnn off a).disp r c = (lift (Repaired.mismMcPixel vg) (occlMc a)).disp r c := by
-  show (maskBorder off (lift (Repaired.mismMcPixel vg) (lift (Repaired.occlMcPixel vg) a))).disp r c = _
-  rw [firstPass_mccnnR]; rfl
-
-theorem mccnnR_flag (off : Nat) (a : DMap) (r c : Nat) :
-    (Repaired.interpolate vg .mccnn off a).flag r c =
-      if (decide (off > 0) && isBorder a off r c) = true then leftNodataOrBorder
-      else (lift (Repaired.mismMcPixel vg) (occlMc a)).flag r c := by
-  show (maskBorder off (lift (Repaired.mismMcPixel vg) (lift (Repaired.occlMcPixel vg) a))).flag r c = _
-  rw [firstPass_mccnnR]; rfl
-
-theorem mccnnR_at_occl (hwf : WFp .mccnn off a) {r c : Nat} (hr : r < a.rows) (hc : c < a.cols)
-    (h8 : (a.flag r c).testBit 8 = true) :
-    (Repaired.interpolate vg .mccnn off a).disp r c = (occlMc a).disp r c
-    ∧ (Repaired.interpolate vg .mccnn off a).flag r c = (occlMc a).flag r c := by
-  have h9 : (a.flag r c).testBit 9 = false := hwf.one r c hr hc h8
-  have h4 : (a.flag r c).testBit 4 = false := hwf.st8 r c hr hc h8
-  have hnb := not_border_of_bit hwf hr hc one_testBit8 h8
-  have hm1 : ((occlMc a).flag r c).testBit 9 = false := by
-    obtain ⟨hs, hn⟩ := occlMc_flagged a r c hc h8
-    cases hsrc : sourceOcclMc a r c with
-    | none => rw [(hn hsrc).2]; exact h9
-    | some v =>
-      rw [(hs v hsrc).2, fill_occl h8 h4, occlusion_pow, filledOcclusion_pow, testBit_replaceBit]; simp [h9]
-  have := mismMcR_unflagged (occlMc a) r c hm1
-  rw [mccnnR_disp, mccnnR_flag, hnb]
-  exact ⟨this.1, by simpa using this.2⟩
-
-theorem midOf_mccnnR_agree (hwf : WFp .mccnn off a) :
-    Agree (midOf .mccnn a (Repaired.interpolate vg .mccnn off a)) (occlMc a) := by
-  refine ⟨rfl, rfl, ?_, ?_⟩
-  · intro r c hr hc
-    simp only [midOf, hasBit_occlusion]
-    by_cases h8 : (a.flag r c).testBit 8 = true
-    · simp [h8, (mccnnR_at_occl hwf hr hc h8).1]
-    · simp only [Bool.not_eq_true] at h8
-      simp [h8, (occlMc_unflagged a r c h8).1]
-  · intro r c hr hc
-    simp only [midOf, hasBit_occlusion]
-    by_cases h8 : (a.flag r c).testBit 8 = true
-    · simp [h8, (mccnnR_at_occl hwf hr hc h8).2]
-    · simp only [Bool.not_eq_true] at h8
-      simp [h8, (occlMc_unflagged a r c h8).2]
-
-theorem mccnnR_outcome (hwf : WFp .mccnn off a) {r c : Nat} (hr : r < a.rows) (hc : c < a.cols) :
-    Outcome .mccnn off a (Repaired.interpolate vg .mccnn off a) r c := by
-  by_cases h8 : (a.flag r c).testBit 8 = true
-  · have h9 : (a.flag r c).testBit 9 = false := hwf.one r c hr hc h8
-    have h4 : (a.flag r c).testBit 4 = false := hwf.st8 r c hr hc h8
-    have hnb := not_border_of_bit hwf hr hc one_testBit8 h8
-    have hfl : flagged (a.flag r c) = true := by rw [flagged_eq, h8]; rfl
-    have hk : kindOf .mccnn a r c = .occl := by simp [kindOf, hasBit_occlusion, h8]
-    obtain ⟨hb1, hb2⟩ := mccnnR_at_occl hwf hr hc h8
-    obtain ⟨hs, hn⟩ := occlMc_flagged a r c hc h8
-    cases hsrc : sourceOcclMc a r c with
-    | none =>
-      have hg0 : (Repaired.interpolate vg .mccnn off a).flag r c = a.flag r c := by rw [hb2, (hn hsrc).2]
-      refine Outcome.unfilled hfl hnb ?_ (by rw [hk, hg0]; rfl) (by rw [hg0]; exact hfl)
-      simp [sourcesOf, hk, hsrc, nums, enoughSources]
-    | some v =>
-      obtain ⟨j, hj, hvj, hdj⟩ := sourceOcclMc_pixel hc hsrc
-      obtain ⟨q, hq⟩ := hwf.vf r j hr hj hvj
-      have hvq : v = .num q := hdj.symm.trans hq
-      have hg : (Repaired.interpolate vg .mccnn off a).flag r c = replaceBit (a.flag r c) occlusion filledOcclusion := by
-        rw [hb2, (hs v hsrc).2, fill_occl h8 h4]
-      have hsrcs : sourcesOf .mccnn a (Repaired.interpolate vg .mccnn off a) r c = [q] := by
-        simp [sourcesOf, hk, hsrc, hvq, nums]
-      refine Outcome.filled hfl hnb (by rw [hk]; exact hg) ?_ q (by rw [hb1, (hs v hsrc).1, hvq]) ?_ ?_ ?_
-      · rw [hg, flagged_eq, occlusion_pow, filledOcclusion_pow, testBit_replaceBit, testBit_replaceBit]; simp [h9]
-      · rw [hk, hsrcs]; simp [valueOK]
-      · rw [betweenValid_iff]; exact Bdd.self hr hj hvj hq
-      · rw [hk, hsrcs]; simp [enoughSources]
-  · simp only [Bool.not_eq_true] at h8
-    obtain ⟨ho1, ho2⟩ := occlMc_unflagged a r c h8
-    by_cases h9 : (a.flag r c).testBit 9 = true
-    · have h5 : (a.flag r c).testBit 5 = false := hwf.st9 r c hr hc h9
-      have hnb := not_border_of_bit hwf hr hc one_testBit9 h9
-      have hfl : flagged (a.flag r c) = true := by rw [flagged_eq, h9]; simp
-      have hk : kindOf .mccnn a r c = .mism := by simp [kindOf, hasBit_occlusion, hasBit_mismatch, h8, h9]
-      have h9' : ((occlMc a).flag r c).testBit 9 = true := by rw [ho2]; exact h9
-      have hsrcs : sourcesOf .mccnn a (Repaired.interpolate vg .mccnn off a) r c = nums (sourcesMc (occlMc a) r c) := by
-        simp only [sourcesOf, hk]
-        rw [sourcesMc_congr (midOf_mccnnR_agree hwf)]
-      obtain ⟨hempty, hfill⟩ := mismMcR_flagged (occlMc a) r c hr hc h9'
-      by_cases hne : nums (sourcesMc (occlMc a) r c) = []
-      · have hg0 : (Repaired.interpolate vg .mccnn off a).flag r c = a.flag r c := by
-          rw [mccnnR_flag, hnb]; simp only [Bool.false_eq_true, if_false]; rw [(hempty hne).2, ho2]
-        refine Outcome.unfilled hfl hnb ?_ (by rw [hk, hg0]; rfl) (by rw [hg0]; exact hfl)
-        rw [hk, hsrcs, hne]; simp [enoughSources]
-      · have hg : (Repaired.interpolate vg .mccnn off a).flag r c = replaceBit (a.flag r c) mismatch filledMismatch := by
-          rw [mccnnR_flag, hnb]; simp only [Bool.false_eq_true, if_false]
-          rw [(hfill hne).2, ho2, fill_mism h9 h5]
-        have hd : (Repaired.interpolate vg .mccnn off a).disp r c = median (nums (sourcesMc (occlMc a) r c)) := by
-          rw [mccnnR_disp]; exact (hfill hne).1
-        cases hmed : median (nums (sourcesMc (occlMc a) r c)) with
-        | nan => exact absurd ((median_eq_nan_iff _).mp hmed) hne
-        | num q =>
-          refine Outcome.filled hfl hnb (by rw [hk]; exact hg) ?_ q (by rw [hd, hmed]) ?_ ?_ ?_
-          · rw [hg, flagged_eq, mismatch_pow, filledMismatch_pow, testBit_replaceBit, testBit_replaceBit]; simp [h8]
-          · rw [hk, hsrcs]; simp [valueOK, hmed]
-          · rw [betweenValid_iff]; exact Bdd.median (mc_sources_bdd r c) hmed
-          · rw [hk, hsrcs]; simp only [enoughSources, decide_eq_true_eq]
-            cases hl : nums (sourcesMc (occlMc a) r c) with
-            | nil => exact absurd hl hne
-            | cons x t => simp
-    · simp only [Bool.not_eq_true] at h9
-      have hfl : flagged (a.flag r c) = false := by rw [flagged_eq, h8, h9]; rfl
-      have h9' : ((occlMc a).flag r c).testBit 9 = false := by rw [ho2]; exact h9
-      obtain ⟨hm1, hm2⟩ := mismMcR_unflagged (occlMc a) r c h9'
-      refine Outcome.untouched hfl (by rw [mccnnR_disp, hm1, ho1]) ?_ (hwf.bc r c hr hc)
-      rw [mccnnR_flag]
-      by_cases hb : (decide (off > 0) && isBorder a off r c) = true
-      · rw [if_pos hb, hwf.bc r c hr hc hb]
-      · rw [if_neg hb, hm2, ho2]
-
-end mccnnR
-
-section sgmR
-variable {off : Nat} {a : DMap}
-
-theorem mismSgmR_unflagged (m : DMap) (r c : Nat) (h : (m.flag r c).testBit 9 = false) :
-    (lift (Repaired.mismSgmPixel vg) m).disp r c = m.disp r c ∧ (lift (Repaired.mismSgmPixel vg) m).flag r c = m.flag r c := by
-  have : ((m.flag r c &&& mismatch) != 0) = false := by
-    have := hasBit_mismatch (m.flag r c); unfold hasBit at this; rw [this, h]
-  simp only [lift, Repaired.mismSgmPixel, this, Bool.false_eq_true, if_false, and_self]
-
-theorem mismSgmR_touch (m : DMap) (r c : Nat) (hr : r < m.rows) (hc : c < m.cols) (h : (m.flag r c).testBit 9 = true)
+theorem mismSgmV_touch (m : DMap) (r c : Nat) (hr : r < m.rows) (hc : c < m.cols) (h : (m.flag r c).testBit 9 = true)
     (ht : touchesOcclusion m r c = true) :
-    (lift (Repaired.mismSgmPixel vg) m).disp r c = m.disp r c
-    ∧ (lift (Repaired.mismSgmPixel vg) m).flag r c = m.flag r c - mismatch + occlusion := by
+    (mismSgm (Variant.mk true op) m).disp r c = m.disp r c
+    ∧ (mismSgm (Variant.mk true op) m).flag r c = raise op (m.flag r c - mismatch) occlusion := by
   have h9 : ((m.flag r c &&& mismatch) != 0) = true := by
     have := hasBit_mismatch (m.flag r c); unfold hasBit at this; rw [this, h]
   have h3 := occlusionSum3x3_ne_zero m r c hr hc
   rw [ht] at h3
-  simp only [lift, Repaired.mismSgmPixel, h9, h3, if_true, upd_vg, and_self]
+  simp only [mismSgm, lift, mismSgmPixel, h9, h3, if_true, and_self]
 
-theorem mismSgmR_fill (m : DMap) (r c : Nat) (hr : r < m.rows) (hc : c < m.cols) (h : (m.flag r c).testBit 9 = true)
+theorem mismSgmV_fill (m : DMap) (r c : Nat) (hr : r < m.rows) (hc : c < m.cols) (h : (m.flag r c).testBit 9 = true)
     (ht : touchesOcclusion m r c = false) :
     (nums (sourcesSgm m r c) = [] →
-      (lift (Repaired.mismSgmPixel vg) m).disp r c = m.disp r c ∧ (lift (Repaired.mismSgmPixel vg) m).flag r c = m.flag r c) ∧
+      (mismSgm (Variant.mk true op) m).disp r c = m.disp r c ∧ (mismSgm (Variant.mk true op) m).flag r c = m.flag r c) ∧
     (nums (sourcesSgm m r c) ≠ [] →
-      (lift (Repaired.mismSgmPixel vg) m).disp r c = median (nums (sourcesSgm m r c))
-      ∧ (lift (Repaired.mismSgmPixel vg) m).flag r c = m.flag r c - mismatch + filledMismatch) := by
+      (mismSgm (Variant.mk true op) m).disp r c = median (nums (sourcesSgm m r c))
+      ∧ (mismSgm (Variant.mk true op) m).flag r c = raise op (m.flag r c - mismatch) filledMismatch) := by
   have h9 : ((m.flag r c &&& mismatch) != 0) = true := by
     have := hasBit_mismatch (m.flag r c); unfold hasBit at this; rw [this, h]
   have h3 := occlusionSum3x3_ne_zero m r c hr hc
   rw [ht] at h3
   have hn : nums (findValidNeighbors m r c) = nums (sourcesSgm m r c) := by
     rw [findValidNeighbors_eq m r c hr hc, nums_map_getD]; rfl
-  simp only [lift, Repaired.mismSgmPixel, h9, h3, if_true, Bool.false_eq_true, if_false, vg, upd, Bool.true_and, nanmedian]
+  simp only [mismSgm, lift, mismSgmPixel, h9, h3, if_true, Bool.false_eq_true, if_false, Bool.true_and, nanmedian]
   rw [hn]
   constructor
   · intro h0; simp [h0]
@@ -1212,23 +573,23 @@ theorem mismSgmR_fill (m : DMap) (r c : Nat) (hr : r < m.rows) (hc : c < m.cols)
       | cons x t => rfl
     simp [this]
 
-theorem occlSgmR_unflagged (m : DMap) (r c : Nat) (h : (m.flag r c).testBit 8 = false) :
-    (lift (Repaired.occlSgmPixel vg) m).disp r c = m.disp r c ∧ (lift (Repaired.occlSgmPixel vg) m).flag r c = m.flag r c := by
+theorem occlSgmV_unflagged (m : DMap) (r c : Nat) (h : (m.flag r c).testBit 8 = false) :
+    (occlSgm (Variant.mk true op) m).disp r c = m.disp r c ∧ (occlSgm (Variant.mk true op) m).flag r c = m.flag r c := by
   have : ((m.flag r c &&& occlusion) != 0) = false := by
     have := hasBit_occlusion (m.flag r c); unfold hasBit at this; rw [this, h]
-  simp only [lift, Repaired.occlSgmPixel, this, Bool.false_eq_true, if_false, and_self]
+  simp only [occlSgm, lift, occlSgmPixel, this, Bool.false_eq_true, if_false, and_self]
 
-theorem occlSgmR_flagged (m : DMap) (r c : Nat) (hr : r < m.rows) (hc : c < m.cols) (h : (m.flag r c).testBit 8 = true) :
+theorem occlSgmV_flagged (m : DMap) (r c : Nat) (hr : r < m.rows) (hc : c < m.cols) (h : (m.flag r c).testBit 8 = true) :
     ((nums (sourcesSgm m r c)).length < 2 →
-      (lift (Repaired.occlSgmPixel vg) m).disp r c = m.disp r c ∧ (lift (Repaired.occlSgmPixel vg) m).flag r c = m.flag r c) ∧
+      (occlSgm (Variant.mk true op) m).disp r c = m.disp r c ∧ (occlSgm (Variant.mk true op) m).flag r c = m.flag r c) ∧
     (2 ≤ (nums (sourcesSgm m r c)).length →
-      (∃ q, (lift (Repaired.occlSgmPixel vg) m).disp r c = .num q ∧ isSecondLowestAbs (nums (sourcesSgm m r c)) q = true)
-      ∧ (lift (Repaired.occlSgmPixel vg) m).flag r c = m.flag r c - occlusion + filledOcclusion) := by
+      (∃ q, (occlSgm (Variant.mk true op) m).disp r c = .num q ∧ isSecondLowestAbs (nums (sourcesSgm m r c)) q = true)
+      ∧ (occlSgm (Variant.mk true op) m).flag r c = raise op (m.flag r c - occlusion) filledOcclusion) := by
   have h8 : ((m.flag r c &&& occlusion) != 0) = true := by
     have := hasBit_occlusion (m.flag r c); unfold hasBit at this; rw [this, h]
   have hn : nums (findValidNeighbors m r c) = nums (sourcesSgm m r c) := by
     rw [findValidNeighbors_eq m r c hr hc, nums_map_getD]; rfl
-  simp only [lift, Repaired.occlSgmPixel, h8, if_true, vg, upd, Bool.true_and, Bool.false_eq_true, if_false]
+  simp only [occlSgm, lift, occlSgmPixel, h8, if_true, Bool.true_and]
   rw [hn]
   constructor
   · intro hlt; simp [hlt]
@@ -1238,26 +599,25 @@ theorem occlSgmR_flagged (m : DMap) (r c : Nat) (hr : r < m.rows) (hc : c < m.co
     rw [← hn] at h2 ⊢
     exact secondLowestAbs_spec _ h2
 
-theorem sgmR_eq (off : Nat) (a : DMap) :
-    Repaired.interpolate vg .sgm off a = lift (Repaired.occlSgmPixel vg) (lift (Repaired.mismSgmPixel vg) a) := rfl
+theorem sgmV_eq (a : DMap) : sgm (Variant.mk true op) a = occlSgm (Variant.mk true op) (mismSgm (Variant.mk true op) a) := rfl
 
 /-- a mismatch not touching an occlusion: what the repaired first pass produced is final -/
-theorem sgmR_at_mism (hwf : WFp .sgm off a) {r c : Nat} (hr : r < a.rows) (hc : c < a.cols)
+theorem sgmV_at_mism (hwf : WFp op .sgm off a) {r c : Nat} (hr : r < a.rows) (hc : c < a.cols)
     (h9 : (a.flag r c).testBit 9 = true) (ht : touchesOcclusion a r c = false) :
-    (Repaired.interpolate vg .sgm off a).disp r c = (lift (Repaired.mismSgmPixel vg) a).disp r c
-    ∧ (Repaired.interpolate vg .sgm off a).flag r c = (lift (Repaired.mismSgmPixel vg) a).flag r c := by
+    (sgm (Variant.mk true op) a).disp r c = (mismSgm (Variant.mk true op) a).disp r c
+    ∧ (sgm (Variant.mk true op) a).flag r c = (mismSgm (Variant.mk true op) a).flag r c := by
   have h8 := bit8_false_of_bit9 hwf hr hc h9
-  have h5 := hwf.st9 r c hr hc h9
-  obtain ⟨he, hf⟩ := mismSgmR_fill a r c hr hc h9 ht
-  have : ((lift (Repaired.mismSgmPixel vg) a).flag r c).testBit 8 = false := by
+  have h5 : op = .add → (a.flag r c).testBit 5 = false := fun h => hwf.st9 h r c hr hc h9
+  obtain ⟨he, hf⟩ := mismSgmV_fill (op := op) a r c hr hc h9 ht
+  have : ((mismSgm (Variant.mk true op) a).flag r c).testBit 8 = false := by
     by_cases h0 : nums (sourcesSgm a r c) = []
     · rw [(he h0).2]; exact h8
-    · rw [(hf h0).2, fill_mism h9 h5, mismatch_pow, filledMismatch_pow, testBit_replaceBit]; simp [h8]
-  rw [sgmR_eq]
-  exact occlSgmR_unflagged _ r c this
+    · rw [(hf h0).2, upd_mism h9 h5, mismatch_pow, filledMismatch_pow, testBit_replaceBit]; simp [h8]
+  rw [sgmV_eq]
+  exact occlSgmV_unflagged _ r c this
 
-theorem midOf_sgmR_agree (hwf : WFp .sgm off a) :
-    Agree (midOf .sgm a (Repaired.interpolate vg .sgm off a)) (lift (Repaired.mismSgmPixel vg) a) := by
+theorem midOf_sgmV_agree (hwf : WFp op .sgm off a) :
+    Agree (midOf .sgm a (sgm (Variant.mk true op) a)) (mismSgm (Variant.mk true op) a) := by
   refine ⟨rfl, rfl, ?_, ?_⟩
   · intro r c hr hc
     by_cases h9 : (a.flag r c).testBit 9 = true
@@ -1265,100 +625,100 @@ theorem midOf_sgmR_agree (hwf : WFp .sgm off a) :
       cases ht : touchesOcclusion a r c
       · have hk : kindOf .sgm a r c = .mism := by rw [kindOf_sgm_mism h8 h9, ht]; rfl
         simp only [midOf, hk, if_true]
-        exact (sgmR_at_mism hwf hr hc h9 ht).1
+        exact (sgmV_at_mism hwf hr hc h9 ht).1
       · have hk : kindOf .sgm a r c = .mismAsOccl := by rw [kindOf_sgm_mism h8 h9, ht]; rfl
         simp only [midOf, hk]
-        rw [(mismSgmR_touch a r c hr hc h9 ht).1]; simp
+        rw [(mismSgmV_touch (op := op) a r c hr hc h9 ht).1]; simp
     · simp only [Bool.not_eq_true] at h9
       have hk : kindOf .sgm a r c ≠ .mism := by
         simp only [kindOf, hasBit_occlusion, hasBit_mismatch, h9]
         cases (a.flag r c).testBit 8 <;> simp
       simp only [midOf, hk, if_false]
-      exact (mismSgmR_unflagged a r c h9).1.symm
+      exact (mismSgmV_unflagged (op := op) a r c h9).1.symm
   · intro r c hr hc
     by_cases h9 : (a.flag r c).testBit 9 = true
     · have h8 := bit8_false_of_bit9 hwf hr hc h9
       cases ht : touchesOcclusion a r c
       · have hk : kindOf .sgm a r c = .mism := by rw [kindOf_sgm_mism h8 h9, ht]; rfl
         simp only [midOf, hk]
-        exact (sgmR_at_mism hwf hr hc h9 ht).2
+        exact (sgmV_at_mism hwf hr hc h9 ht).2
       · have hk : kindOf .sgm a r c = .mismAsOccl := by rw [kindOf_sgm_mism h8 h9, ht]; rfl
         simp only [midOf, hk]
-        rw [(mismSgmR_touch a r c hr hc h9 ht).2, mism_to_occl h9 h8]
+        rw [(mismSgmV_touch (op := op) a r c hr hc h9 ht).2, upd_mism_occl h9 h8]
     · simp only [Bool.not_eq_true] at h9
-      have := (mismSgmR_unflagged a r c h9).2
+      have := (mismSgmV_unflagged (op := op) a r c h9).2
       simp only [midOf, kindOf, hasBit_occlusion, hasBit_mismatch, h9]
       cases (a.flag r c).testBit 8 <;> simp [this]
 
-theorem mismSgmR_valid_bdd (hwf : WFp .sgm off a) {r c : Nat} (hr : r < a.rows) (hc : c < a.cols)
-    (hv : (lift (Repaired.mismSgmPixel vg) a).valid r c = true) {q : Rat}
-    (hd : (lift (Repaired.mismSgmPixel vg) a).disp r c = .num q) : Bdd a q := by
+theorem mismSgmV_valid_bdd (hwf : WFp op .sgm off a) {r c : Nat} (hr : r < a.rows) (hc : c < a.cols)
+    (hv : (mismSgm (Variant.mk true op) a).valid r c = true) {q : Rat}
+    (hd : (mismSgm (Variant.mk true op) a).disp r c = .num q) : Bdd a q := by
   by_cases h9 : (a.flag r c).testBit 9 = true
   · have h8 := bit8_false_of_bit9 hwf hr hc h9
     cases ht : touchesOcclusion a r c
-    · obtain ⟨he, hf⟩ := mismSgmR_fill a r c hr hc h9 ht
+    · obtain ⟨he, hf⟩ := mismSgmV_fill (op := op) a r c hr hc h9 ht
       by_cases h0 : nums (sourcesSgm a r c) = []
       · exfalso
-        have : (lift (Repaired.mismSgmPixel vg) a).valid r c = false := by
+        have : (mismSgm (Variant.mk true op) a).valid r c = false := by
           apply not_valid_of_bit9; rw [(he h0).2]; exact h9
         rw [this] at hv; cases hv
       · rw [(hf h0).1] at hd
         exact Bdd.median (sgm_input_sources_bdd r c) hd
     · exfalso
-      have : (lift (Repaired.mismSgmPixel vg) a).valid r c = false := by
+      have : (mismSgm (Variant.mk true op) a).valid r c = false := by
         apply not_valid_of_bit8
-        rw [(mismSgmR_touch a r c hr hc h9 ht).2, mism_to_occl h9 h8, mismatch_pow, occlusion_pow, testBit_replaceBit]
+        rw [(mismSgmV_touch (op := op) a r c hr hc h9 ht).2, upd_mism_occl h9 h8, mismatch_pow, occlusion_pow, testBit_replaceBit]
         simp
       rw [this] at hv; cases hv
   · simp only [Bool.not_eq_true] at h9
-    have := mismSgmR_unflagged a r c h9
+    have := mismSgmV_unflagged (op := op) a r c h9
     unfold DMap.valid at hv
     rw [this.2] at hv; rw [this.1] at hd
     exact Bdd.self hr hc hv hd
 
-theorem sgmR_sources_bdd (hwf : WFp .sgm off a) (r c : Nat) :
-    ∀ q ∈ nums (sourcesSgm (lift (Repaired.mismSgmPixel vg) a) r c), Bdd a q := by
+theorem sgmV_sources_bdd (hwf : WFp op .sgm off a) (r c : Nat) :
+    ∀ q ∈ nums (sourcesSgm (mismSgm (Variant.mk true op) a) r c), Bdd a q := by
   intro q hq
   rw [mem_nums] at hq
   unfold sourcesSgm at hq
   rw [List.mem_filterMap] at hq
   obtain ⟨d, _, hd⟩ := hq
   obtain ⟨r', c', hr', hc', hv, hdisp⟩ := ray_source_pixel hd
-  exact mismSgmR_valid_bdd hwf hr' hc' hv hdisp
+  exact mismSgmV_valid_bdd hwf hr' hc' hv hdisp
 
 /-- a pixel handled as an occlusion (bit 8 after the repaired first pass): filled from two or more
     sources, left as it is otherwise -/
-theorem sgmR_occl (hwf : WFp .sgm off a) {r c : Nat} (hr : r < a.rows) (hc : c < a.cols)
+theorem sgmV_occl (hwf : WFp op .sgm off a) {r c : Nat} (hr : r < a.rows) (hc : c < a.cols)
     (hk : kindOf .sgm a r c = .occl ∨ kindOf .sgm a r c = .mismAsOccl)
     (hfl : flagged (a.flag r c) = true) (hnb : (decide (off > 0) && isBorder a off r c) = false)
-    (h8 : ((lift (Repaired.mismSgmPixel vg) a).flag r c).testBit 8 = true)
-    (h4 : ((lift (Repaired.mismSgmPixel vg) a).flag r c).testBit 4 = false)
-    (hun : (lift (Repaired.mismSgmPixel vg) a).flag r c = unfilledFlag (kindOf .sgm a r c) (a.flag r c))
-    (hfi : replaceBit ((lift (Repaired.mismSgmPixel vg) a).flag r c) occlusion filledOcclusion
+    (h8 : ((mismSgm (Variant.mk true op) a).flag r c).testBit 8 = true)
+    (h4 : op = .add → ((mismSgm (Variant.mk true op) a).flag r c).testBit 4 = false)
+    (hun : (mismSgm (Variant.mk true op) a).flag r c = unfilledFlag (kindOf .sgm a r c) (a.flag r c))
+    (hfi : replaceBit ((mismSgm (Variant.mk true op) a).flag r c) occlusion filledOcclusion
             = filledFlag (kindOf .sgm a r c) (a.flag r c))
     (hnf : flagged (filledFlag (kindOf .sgm a r c) (a.flag r c)) = false) :
-    Outcome .sgm off a (Repaired.interpolate vg .sgm off a) r c := by
-  have hsrcs : sourcesOf .sgm a (Repaired.interpolate vg .sgm off a) r c
-      = nums (sourcesSgm (lift (Repaired.mismSgmPixel vg) a) r c) := by
-    rcases hk with hk | hk <;> simp only [sourcesOf, hk] <;> rw [sourcesSgm_congr (midOf_sgmR_agree hwf)]
-  obtain ⟨hlt, hge⟩ := occlSgmR_flagged (lift (Repaired.mismSgmPixel vg) a) r c hr hc h8
-  by_cases h2 : 2 ≤ (nums (sourcesSgm (lift (Repaired.mismSgmPixel vg) a) r c)).length
+    Outcome .sgm off a (sgm (Variant.mk true op) a) r c := by
+  have hsrcs : sourcesOf .sgm a (sgm (Variant.mk true op) a) r c
+      = nums (sourcesSgm (mismSgm (Variant.mk true op) a) r c) := by
+    rcases hk with hk | hk <;> simp only [sourcesOf, hk] <;> rw [sourcesSgm_congr (midOf_sgmV_agree hwf)]
+  obtain ⟨hlt, hge⟩ := occlSgmV_flagged (mismSgm (Variant.mk true op) a) r c hr hc h8
+  by_cases h2 : 2 ≤ (nums (sourcesSgm (mismSgm (Variant.mk true op) a) r c)).length
   · obtain ⟨⟨q, hq, hs⟩, hg⟩ := hge h2
-    have hg' : (Repaired.interpolate vg .sgm off a).flag r c = filledFlag (kindOf .sgm a r c) (a.flag r c) := by
-      rw [sgmR_eq, hg, fill_occl h8 h4, hfi]
-    refine Outcome.filled hfl hnb hg' (by rw [hg']; exact hnf) q (by rw [sgmR_eq]; exact hq) ?_ ?_ ?_
+    have hg' : (sgm (Variant.mk true op) a).flag r c = filledFlag (kindOf .sgm a r c) (a.flag r c) := by
+      rw [sgmV_eq, hg, upd_occl h8 h4, hfi]
+    refine Outcome.filled hfl hnb hg' (by rw [hg']; exact hnf) q (by rw [sgmV_eq]; exact hq) ?_ ?_ ?_
     · rw [hsrcs]; rcases hk with hk | hk <;> simp [hk, valueOK, hs]
-    · rw [betweenValid_iff]; exact sgmR_sources_bdd hwf r c q (isSecondLowestAbs_mem hs)
+    · rw [betweenValid_iff]; exact sgmV_sources_bdd hwf r c q (isSecondLowestAbs_mem hs)
     · rw [hsrcs]; rcases hk with hk | hk <;> simpa [hk, enoughSources] using h2
-  · have hlt' : (nums (sourcesSgm (lift (Repaired.mismSgmPixel vg) a) r c)).length < 2 := by omega
-    have hg' : (Repaired.interpolate vg .sgm off a).flag r c = unfilledFlag (kindOf .sgm a r c) (a.flag r c) := by
-      rw [sgmR_eq, (hlt hlt').2, hun]
+  · have hlt' : (nums (sourcesSgm (mismSgm (Variant.mk true op) a) r c)).length < 2 := by omega
+    have hg' : (sgm (Variant.mk true op) a).flag r c = unfilledFlag (kindOf .sgm a r c) (a.flag r c) := by
+      rw [sgmV_eq, (hlt hlt').2, hun]
     refine Outcome.unfilled hfl hnb ?_ hg' ?_
     · rw [hsrcs]; rcases hk with hk | hk <;> simpa [hk, enoughSources] using hlt'
-    · rw [sgmR_eq, (hlt hlt').2, flagged_eq, h8]; rfl
+    · rw [sgmV_eq, (hlt hlt').2, flagged_eq, h8]; rfl
 
-theorem sgmR_outcome (hwf : WFp .sgm off a) {r c : Nat} (hr : r < a.rows) (hc : c < a.cols) :
-    Outcome .sgm off a (Repaired.interpolate vg .sgm off a) r c := by
+theorem sgmV_outcome (hwf : WFp op .sgm off a) {r c : Nat} (hr : r < a.rows) (hc : c < a.cols) :
+    Outcome .sgm off a (sgm (Variant.mk true op) a) r c := by
   have hborder : ∀ k, (leftNodataOrBorder).testBit k = false → (a.flag r c).testBit k = true →
       (decide (off > 0) && isBorder a off r c) = false := by
     intro k h1 hk
@@ -1368,33 +728,33 @@ theorem sgmR_outcome (hwf : WFp .sgm off a) {r c : Nat} (hr : r < a.rows) (hc : 
   by_cases h8 : (a.flag r c).testBit 8 = true
   · -- occlusion
     have h9 : (a.flag r c).testBit 9 = false := hwf.one r c hr hc h8
-    have h4 : (a.flag r c).testBit 4 = false := hwf.st8 r c hr hc h8
+    have h4 : op = .add → (a.flag r c).testBit 4 = false := fun h => hwf.st8 h r c hr hc h8
     have hfl : flagged (a.flag r c) = true := by rw [flagged_eq, h8]; rfl
     have hk : kindOf .sgm a r c = .occl := by simp [kindOf, hasBit_occlusion, h8]
-    obtain ⟨_, hm2⟩ := mismSgmR_unflagged a r c h9
-    refine sgmR_occl hwf hr hc (Or.inl hk) hfl (hborder 8 one_testBit8 h8) (by rw [hm2]; exact h8)
+    obtain ⟨_, hm2⟩ := mismSgmV_unflagged (op := op) a r c h9
+    refine sgmV_occl hwf hr hc (Or.inl hk) hfl (hborder 8 one_testBit8 h8) (by rw [hm2]; exact h8)
       (by rw [hm2]; exact h4) (by rw [hm2, hk]; rfl) (by rw [hm2, hk]; rfl) ?_
     rw [hk]; simp only [filledFlag]
     rw [flagged_eq, occlusion_pow, filledOcclusion_pow, testBit_replaceBit, testBit_replaceBit]; simp [h9]
   · simp only [Bool.not_eq_true] at h8
     by_cases h9 : (a.flag r c).testBit 9 = true
-    · have h5 : (a.flag r c).testBit 5 = false := hwf.st9 r c hr hc h9
-      have h4 : (a.flag r c).testBit 4 = false := hwf.st9s rfl r c hr hc h9
+    · have h5 : op = .add → (a.flag r c).testBit 5 = false := fun h => hwf.st9 h r c hr hc h9
+      have h4 : op = .add → (a.flag r c).testBit 4 = false := fun h => hwf.st9s h rfl r c hr hc h9
       have hnb := hborder 9 one_testBit9 h9
       have hfl : flagged (a.flag r c) = true := by rw [flagged_eq, h9]; simp
       cases ht : touchesOcclusion a r c
       · -- plain mismatch
         have hk : kindOf .sgm a r c = .mism := by rw [kindOf_sgm_mism h8 h9, ht]; rfl
-        obtain ⟨hb1, hb2⟩ := sgmR_at_mism hwf hr hc h9 ht
-        obtain ⟨he, hf⟩ := mismSgmR_fill a r c hr hc h9 ht
-        have hsrcs : sourcesOf .sgm a (Repaired.interpolate vg .sgm off a) r c = nums (sourcesSgm a r c) := by
+        obtain ⟨hb1, hb2⟩ := sgmV_at_mism hwf hr hc h9 ht
+        obtain ⟨he, hf⟩ := mismSgmV_fill (op := op) a r c hr hc h9 ht
+        have hsrcs : sourcesOf .sgm a (sgm (Variant.mk true op) a) r c = nums (sourcesSgm a r c) := by
           simp only [sourcesOf, hk]
         by_cases hne : nums (sourcesSgm a r c) = []
-        · have hg0 : (Repaired.interpolate vg .sgm off a).flag r c = a.flag r c := by rw [hb2, (he hne).2]
+        · have hg0 : (sgm (Variant.mk true op) a).flag r c = a.flag r c := by rw [hb2, (he hne).2]
           refine Outcome.unfilled hfl hnb ?_ (by rw [hk, hg0]; rfl) (by rw [hg0]; exact hfl)
           rw [hk, hsrcs, hne]; simp [enoughSources]
-        · have hg : (Repaired.interpolate vg .sgm off a).flag r c = replaceBit (a.flag r c) mismatch filledMismatch := by
-            rw [hb2, (hf hne).2, fill_mism h9 h5]
+        · have hg : (sgm (Variant.mk true op) a).flag r c = replaceBit (a.flag r c) mismatch filledMismatch := by
+            rw [hb2, (hf hne).2, upd_mism h9 h5]
           cases hmed : median (nums (sourcesSgm a r c)) with
           | nan => exact absurd ((median_eq_nan_iff _).mp hmed) hne
           | num q =>
@@ -1408,11 +768,11 @@ theorem sgmR_outcome (hwf : WFp .sgm off a) {r c : Nat} (hr : r < a.rows) (hc : 
               | cons x t => simp
       · -- mismatch touching an occlusion
         have hk : kindOf .sgm a r c = .mismAsOccl := by rw [kindOf_sgm_mism h8 h9, ht]; rfl
-        obtain ⟨_, hm2⟩ := mismSgmR_touch a r c hr hc h9 ht
-        have hf1 : (lift (Repaired.mismSgmPixel vg) a).flag r c = replaceBit (a.flag r c) (2 ^ 9) (2 ^ 8) := by
-          rw [hm2, mism_to_occl h9 h8, mismatch_pow, occlusion_pow]
-        refine sgmR_occl hwf hr hc (Or.inr hk) hfl hnb (by rw [hf1, testBit_replaceBit]; simp)
-          (by rw [hf1, testBit_replaceBit]; simp [h4]) (by rw [hf1, hk]; simp [unfilledFlag, mismatch_pow, occlusion_pow]) ?_ ?_
+        obtain ⟨_, hm2⟩ := mismSgmV_touch (op := op) a r c hr hc h9 ht
+        have hf1 : (mismSgm (Variant.mk true op) a).flag r c = replaceBit (a.flag r c) (2 ^ 9) (2 ^ 8) := by
+          rw [hm2, upd_mism_occl h9 h8, mismatch_pow, occlusion_pow]
+        refine sgmV_occl hwf hr hc (Or.inr hk) hfl hnb (by rw [hf1, testBit_replaceBit]; simp)
+          (by intro hop; rw [hf1, testBit_replaceBit]; simp [h4 hop]) (by rw [hf1, hk]; simp [unfilledFlag, mismatch_pow, occlusion_pow]) ?_ ?_
         · rw [hf1, hk, occlusion_pow, filledOcclusion_pow, replaceBit_twice _ 9 8 4 h8 (by decide)]
           simp [filledFlag, mismatch_pow, filledOcclusion_pow]
         · rw [hk]; simp only [filledFlag]
@@ -1420,35 +780,192 @@ theorem sgmR_outcome (hwf : WFp .sgm off a) {r c : Nat} (hr : r < a.rows) (hc : 
     · -- neither bit
       simp only [Bool.not_eq_true] at h9
       have hfl : flagged (a.flag r c) = false := by rw [flagged_eq, h8, h9]; rfl
-      obtain ⟨hm1, hm2⟩ := mismSgmR_unflagged a r c h9
-      have h8' : ((lift (Repaired.mismSgmPixel vg) a).flag r c).testBit 8 = false := by rw [hm2]; exact h8
-      obtain ⟨ho1, ho2⟩ := occlSgmR_unflagged (lift (Repaired.mismSgmPixel vg) a) r c h8'
-      exact Outcome.untouched hfl (by rw [sgmR_eq, ho1, hm1]) (by rw [sgmR_eq, ho2, hm2]) (hwf.bc r c hr hc)
+      obtain ⟨hm1, hm2⟩ := mismSgmV_unflagged (op := op) a r c h9
+      have h8' : ((mismSgm (Variant.mk true op) a).flag r c).testBit 8 = false := by rw [hm2]; exact h8
+      obtain ⟨ho1, ho2⟩ := occlSgmV_unflagged (mismSgm (Variant.mk true op) a) r c h8'
+      exact Outcome.untouched hfl (by rw [sgmV_eq, ho1, hm1]) (by rw [sgmV_eq, ho2, hm2]) (hwf.bc r c hr hc)
 
-end sgmR
+end sgmV
 
-/-- FULL STRENGTH, repaired code.  With `proposed_fixes/C14-fill-from-nothing.diff` applied, every well-formed map
-    of any size, both methods: the whole specification holds — no hypothesis about sources is left. -/
-theorem spec_holds_repaired (meth : Method) (off : Nat) (a : DMap) (hwf : wf meth off a = true) :
-    spec meth off a (Repaired.interpolate vg meth off a) = true := by
+/-! ### 8. The theorems that carry the property -/
+
+/-- MAIN (per pixel).  For every guarded text of the kernels (`+=` or `|=`), every well-formed map of any size
+    and every pixel inside it: what happened to the pixel is one of the three outcomes the statement allows. -/
+theorem outcome (v : Variant) (hg : v.guard = true) (meth : Method) (off : Nat) (a : DMap)
+    (hwf : wf v.op meth off a = true) {r c : Nat} (hr : r < a.rows) (hc : c < a.cols) :
+    Outcome meth off a (interpolate v meth off a) r c := by
+  obtain ⟨g, op⟩ := v
+  simp only at hg; subst hg
+  cases meth with
+  | mccnn => exact mccnnV_outcome (wf_elim hwf) hr hc
+  | sgm => exact sgmV_outcome (wf_elim hwf) hr hc
+
+theorem pixel_ok (v : Variant) (hg : v.guard = true) (meth : Method) (off : Nat) (a : DMap)
+    (hwf : wf v.op meth off a = true) {r c : Nat} (hr : r < a.rows) (hc : c < a.cols) :
+    pixelOK meth off a (interpolate v meth off a) r c = true :=
+  pixelOK_of_outcome (outcome v hg meth off a hwf hr hc)
+
+/-- FULL STRENGTH.  Every guarded text of the kernels, every well-formed map of any size, both methods: the
+    whole specification holds (all nine clauses at every pixel). -/
+theorem spec_holds (v : Variant) (hg : v.guard = true) (meth : Method) (off : Nat) (a : DMap)
+    (hwf : wf v.op meth off a = true) : spec meth off a (interpolate v meth off a) = true := by
   unfold spec
-  have h1 : (Repaired.interpolate vg meth off a).rows = a.rows := by cases meth <;> rfl
-  have h2 : (Repaired.interpolate vg meth off a).cols = a.cols := by cases meth <;> rfl
+  have h1 : (interpolate v meth off a).rows = a.rows := by cases meth <;> rfl
+  have h2 : (interpolate v meth off a).cols = a.cols := by cases meth <;> rfl
   simp only [h1, h2, decide_true, Bool.true_and, List.all_eq_true, List.mem_range]
   intro r hr c hc
-  apply pixelOK_of_outcome
-  cases meth with
-  | mccnn => exact mccnnR_outcome (wf_elim hwf) hr hc
-  | sgm => exact sgmR_outcome (wf_elim hwf) hr hc
+  exact pixel_ok v hg meth off a hwf hr hc
 
-/-- the repaired code on the inputs of the counterexamples: the pixels stay flagged -/
-example : (Repaired.interpolate vg .mccnn 0 exF6a).flag 0 2 = 512 ∧ (Repaired.interpolate vg .mccnn 0 exF6b).disp 0 0 = .num 7
-    ∧ (Repaired.interpolate vg .sgm 0 exF6c).flag 1 1 = 512 ∧ (Repaired.interpolate vg .sgm 0 exF6d).flag 1 1 = 256
-    ∧ spec .mccnn 0 exF6a (Repaired.interpolate vg .mccnn 0 exF6a) = true
-    ∧ spec .mccnn 0 exF6b (Repaired.interpolate vg .mccnn 0 exF6b) = true
-    ∧ spec .sgm 0 exF6c (Repaired.interpolate vg .sgm 0 exF6c) = true
-    ∧ spec .sgm 0 exF6d (Repaired.interpolate vg .sgm 0 exF6d) = true := by decide
+/-- THE PROPERTY FOR THE CURRENT SOURCE: the variant the translator read from
+    `pandora/validation/interpolated_disparity.py` on this run is guarded, and for it the specification holds
+    on every well-formed map.  With `|=` (7723010) `wf` no longer asks for "no stale filled bit". -/
+theorem spec_holds_source (meth : Method) (off : Nat) (a : DMap) (hwf : wf sourceVariant.op meth off a = true) :
+    spec meth off a (interpolate sourceVariant meth off a) = true :=
+  spec_holds sourceVariant source_guarded meth off a hwf
 
-end R
+/-- only pixels flagged 8 or 9 can change — every other pixel keeps its disparity and its flags bit for bit -/
+theorem unflagged_untouched (v : Variant) (hg : v.guard = true) (meth : Method) (off : Nat) (a : DMap)
+    (hwf : wf v.op meth off a = true) {r c : Nat} (hr : r < a.rows) (hc : c < a.cols)
+    (hf : flagged (a.flag r c) = false) :
+    (interpolate v meth off a).disp r c = a.disp r c ∧ (interpolate v meth off a).flag r c = a.flag r c := by
+  cases outcome v hg meth off a hwf hr hc with
+  | untouched _ hd hg' _ => exact ⟨hd, hg'⟩
+  | unfilled hf' => rw [hf] at hf'; cases hf'
+  | filled hf' => rw [hf] at hf'; cases hf'
+
+/-- a flagged pixel is never on the border and ends with bit 8 replaced by 4 / bit 9 by 5 (sgm: by 4 when it
+    touches an occlusion) and a finite disparity, or stays flagged (bit 9 → 8 for an sgm mismatch touching an
+    occlusion) with too few sources; no other bit ever changes -/
+theorem filled_bits (v : Variant) (hg : v.guard = true) (meth : Method) (off : Nat) (a : DMap)
+    (hwf : wf v.op meth off a = true) {r c : Nat} (hr : r < a.rows) (hc : c < a.cols)
+    (hf : flagged (a.flag r c) = true) :
+    (decide (off > 0) && isBorder a off r c) = false ∧
+    (((interpolate v meth off a).flag r c = filledFlag (kindOf meth a r c) (a.flag r c)
+        ∧ ∃ q, (interpolate v meth off a).disp r c = .num q)
+      ∨ ((interpolate v meth off a).flag r c = unfilledFlag (kindOf meth a r c) (a.flag r c)
+          ∧ flagged ((interpolate v meth off a).flag r c) = true
+          ∧ enoughSources meth (kindOf meth a r c) (sourcesOf meth a (interpolate v meth off a) r c).length = false)) := by
+  cases outcome v hg meth off a hwf hr hc with
+  | untouched hf' => rw [hf] at hf'; cases hf'
+  | unfilled _ hb hs hg' hfg => exact ⟨hb, Or.inr ⟨hg', hfg, hs⟩⟩
+  | filled _ hb hg' _ q hd => exact ⟨hb, Or.inl ⟨hg', q, hd⟩⟩
+
+/-- mc-cnn masks the border whatever the input and the variant: border pixels end with bit 0 only -/
+theorem border_bit0_only_mccnn (v : Variant) (off : Nat) (a : DMap) (r c : Nat)
+    (h : (decide (off > 0) && isBorder a off r c) = true) : (mccnn v off a).flag r c = leftNodataOrBorder := by
+  rw [mccnn_flag, if_pos h]
+
+/-- border pixels end with bit 0 only, both methods (sgm: because they are left untouched) -/
+theorem border_bit0_only (v : Variant) (hg : v.guard = true) (meth : Method) (off : Nat) (a : DMap)
+    (hwf : wf v.op meth off a = true) {r c : Nat} (hr : r < a.rows) (hc : c < a.cols)
+    (h : (decide (off > 0) && isBorder a off r c) = true) :
+    (interpolate v meth off a).flag r c = leftNodataOrBorder := by
+  have hf1 := (wf_elim hwf).bc r c hr hc h
+  have hf : flagged (a.flag r c) = false := by rw [hf1]; decide
+  rw [(unflagged_untouched v hg meth off a hwf hr hc hf).2, hf1]
+
+/-! ### 9. Why the guards and `|=` are needed: the same statement is false of the earlier texts of the kernels
+    (findings F6a–F6d repaired by e1d31ca, F4 repaired by 7723010; inputs in `corpus/C14/`), and non-vacuity -/
+
+/-- a map from nested lists (cells outside read as NaN / 0) -/
+def mapOf (disp : List (List Val)) (flag : List (List Nat)) : DMap :=
+  { rows := flag.length, cols := (flag.headD []).length,
+    disp := fun r c => (disp.getD r []).getD c .nan, flag := fun r c => (flag.getD r []).getD c 0 }
+
+def okOf (cl : View → Clause) (v : Variant) (meth : Method) (off : Nat) (a : DMap) (r c : Nat) : Bool :=
+  (cl (viewAt meth off a (interpolate v meth off a) r c)).ok
+
+/-- the kernels before e1d31ca and 7723010 / with the guards only / as they are now -/
+def vOld : Variant := ⟨false, .add⟩
+def vGuardAdd : Variant := ⟨true, .add⟩
+def vNow : Variant := ⟨true, .or⟩
+
+/-- F6a (corpus f6a_mccnn_mismatch_nan.json), unguarded kernels: a mismatch with no valid pixel on its 16 scan
+    lines is filled with NaN and marked "filled mismatch"; the guarded kernels leave it flagged. -/
+def exF6a : DMap := mapOf [[.num 5, .num 6, .nan, .num 8, .num 9]] [[1, 1, 512, 1, 1]]
+
+theorem mccnn_mismatch_nan_counterexample :
+    wf .add .mccnn 0 exF6a = true
+    ∧ (mccnn vOld 0 exF6a).disp 0 2 = .nan ∧ (mccnn vOld 0 exF6a).flag 0 2 = 32
+    ∧ okOf cFilledFinite vOld .mccnn 0 exF6a 0 2 = false ∧ okOf cNoSource vOld .mccnn 0 exF6a 0 2 = false
+    ∧ spec .mccnn 0 exF6a (interpolate vOld .mccnn 0 exF6a) = false
+    ∧ (mccnn vNow 0 exF6a).flag 0 2 = 512 := by decide
+
+/-- F6b (corpus f6b_mccnn_mismatch_zero.json), unguarded kernels: two scan lines of the mismatch at (0,0) run
+    their max(rows, cols) − 1 = 2 steps inside the image on invalid pixels: the 0 of `np.zeros` enters the median
+    twice, the only valid pixel in sight carries 7, the pixel is filled with 0 — outside [7, 7].  Now: 7. -/
+def exF6b : DMap := mapOf [[.nan, .nan, .nan], [.nan, .num 7, .nan]] [[512, 2, 2], [2, 0, 2]]
+
+theorem mccnn_mismatch_zero_counterexample :
+    wf .add .mccnn 0 exF6b = true
+    ∧ (mccnn vOld 0 exF6b).disp 0 0 = .num 0 ∧ (mccnn vOld 0 exF6b).flag 0 0 = 32
+    ∧ sourcesOf .mccnn exF6b (mccnn vOld 0 exF6b) 0 0 = [7]
+    ∧ okOf (cFilledFromValid .mccnn) vOld .mccnn 0 exF6b 0 0 = false
+    ∧ okOf (cFilledBetween exF6b) vOld .mccnn 0 exF6b 0 0 = false
+    ∧ spec .mccnn 0 exF6b (interpolate vOld .mccnn 0 exF6b) = false
+    ∧ (mccnn vNow 0 exF6b).disp 0 0 = .num 7 := by decide
+
+/-- F6c (corpus f6c_sgm_mismatch_nan.json), unguarded: sgm mismatch without valid pixel on its 8 scan lines. -/
+def exF6c : DMap :=
+  mapOf [[.num 5, .num 6, .num 7], [.num 1, .nan, .num 3], [.num 1, .num 4, .num (-1)]] [[1, 1, 1], [1, 512, 1], [1, 1, 1]]
+
+theorem sgm_mismatch_nan_counterexample :
+    wf .add .sgm 0 exF6c = true
+    ∧ (sgm vOld exF6c).disp 1 1 = .nan ∧ (sgm vOld exF6c).flag 1 1 = 32
+    ∧ okOf cFilledFinite vOld .sgm 0 exF6c 1 1 = false ∧ okOf cNoSource vOld .sgm 0 exF6c 1 1 = false
+    ∧ spec .sgm 0 exF6c (interpolate vOld .sgm 0 exF6c) = false
+    ∧ (sgm vNow exF6c).flag 1 1 = 512 := by decide
+
+/-- F6d (corpus f6d_sgm_occlusion_nan.json), unguarded: sgm occlusion with a single valid pixel in sight:
+    `argsort(|·|)[1]` points at a NaN. -/
+def exF6d : DMap :=
+  mapOf [[.num 5, .num 6, .num 7], [.num 1, .nan, .num 3], [.num 1, .num 4, .num (-1)]] [[1, 1, 1], [0, 256, 1], [1, 1, 1]]
+
+theorem sgm_occlusion_nan_counterexample :
+    wf .add .sgm 0 exF6d = true
+    ∧ sourcesOf .sgm exF6d (sgm vOld exF6d) 1 1 = [1]
+    ∧ (sgm vOld exF6d).disp 1 1 = .nan ∧ (sgm vOld exF6d).flag 1 1 = 16
+    ∧ okOf cFilledFinite vOld .sgm 0 exF6d 1 1 = false
+    ∧ spec .sgm 0 exF6d (interpolate vOld .sgm 0 exF6d) = false
+    ∧ (sgm vNow exF6d).flag 1 1 = 256 := by decide
+
+/-- F4 (corpus f4_stale_filled_bit.json): an occlusion that already carries bit 4 (left by an earlier validation
+    step with filling).  With `+=` (even with the guards) bit 4 + bit 4 carries into bit 5 and the specification
+    fails — this is why the add-form needs `noStaleFill`; with `|=` the map is well-formed, the pixel ends with
+    bit 4 and the whole specification holds. -/
+def exF4 : DMap := mapOf [[.num 3, .nan, .num 4]] [[0, 272, 0]]
+
+theorem stale_filled_bit_add_counterexample :
+    noStaleFill .mccnn exF4 = false ∧ wf .add .mccnn 0 exF4 = false
+    ∧ (mccnn vGuardAdd 0 exF4).flag 0 1 = 32 ∧ filledFlag .occl 272 = 16
+    ∧ okOf cFilledBits vGuardAdd .mccnn 0 exF4 0 1 = false
+    ∧ spec .mccnn 0 exF4 (interpolate vGuardAdd .mccnn 0 exF4) = false := by decide
+
+theorem stale_filled_bit_or_ok :
+    wf .or .mccnn 0 exF4 = true ∧ (mccnn vNow 0 exF4).flag 0 1 = 16 ∧ (mccnn vNow 0 exF4).disp 0 1 = .num 3
+    ∧ spec .mccnn 0 exF4 (interpolate vNow .mccnn 0 exF4) = true := by decide
+
+/-- non-vacuity, mc-cnn: an occlusion filled from its left (3) and a mismatch filled with the median of
+    {4,4,4,3,3,3,5,5,5,4,4} = 4 (the filled occlusion is one of the sources, three times); a second mismatch in a
+    corner without anything in sight would stay flagged. -/
+def exOkMc : DMap := mapOf [[.num 3, .nan, .nan, .num 5], [.num 4, .num 4, .num 4, .num 4]] [[0, 256, 512, 0], [0, 0, 0, 0]]
+
+example : wf .or .mccnn 0 exOkMc = true
+    ∧ (mccnn vNow 0 exOkMc).disp 0 1 = .num 3 ∧ (mccnn vNow 0 exOkMc).flag 0 1 = 16
+    ∧ (mccnn vNow 0 exOkMc).disp 0 2 = .num 4 ∧ (mccnn vNow 0 exOkMc).flag 0 2 = 32
+    ∧ spec .mccnn 0 exOkMc (interpolate vNow .mccnn 0 exOkMc) = true := by decide
+
+/-- non-vacuity, sgm: an occlusion (second lowest |d| of its 7 finite neighbours 6, 5, 4, 1, 2, 3, −2: the tie
+    |2| = |−2| goes to the first in direction order, 2) and a mismatch touching it (handled as an occlusion:
+    −2 among {−2, 1, 6}), offset 1 with a clean border on a 5×5 map. -/
+def exOkSgm : DMap :=
+  mapOf [[.nan, .nan, .nan, .nan, .nan], [.nan, .num 1, .num 2, .num 3, .nan], [.nan, .num 4, .nan, .num (-2), .nan],
+         [.nan, .num 5, .num 6, .nan, .nan], [.nan, .nan, .nan, .nan, .nan]]
+        [[1, 1, 1, 1, 1], [1, 0, 0, 0, 1], [1, 0, 256, 0, 1], [1, 0, 0, 512, 1], [1, 1, 1, 1, 1]]
+
+example : wf .or .sgm 1 exOkSgm = true
+    ∧ (sgm vNow exOkSgm).disp 2 2 = .num 2 ∧ (sgm vNow exOkSgm).flag 2 2 = 16
+    ∧ (sgm vNow exOkSgm).disp 3 3 = .num (-2) ∧ (sgm vNow exOkSgm).flag 3 3 = 16
+    ∧ spec .sgm 1 exOkSgm (interpolate vNow .sgm 1 exOkSgm) = true := by decide
 
 end Pandora.C14
